@@ -2,6 +2,81 @@ import Tuc.Model.StdioLit
 import Tuc.Model.Args
 import Tuc.Model.StreamLoop
 
+/-!
+# Tuc.Props.StdioLit — the std buffering under `main` does what `deliver` and the chunk-list readers say
+
+`Tuc.Model.StdioLit` transcribes `BufWriter`, `LineWriterShim` / `LineWriter`, the default `write_all`,
+`BufReader` (`fill_buf`, `consume`, `read_buf` with its bypass) statement by statement over an operating system
+that is an ORACLE (a finite list of answers: short counts, `Ok(0)`, `EINTR`, transient and sticky errors; full
+service once the list is used up).  Here the abstract behaviour that `Tuc.Model.Args.deliver` and the readers of
+`Tuc.Model.StreamLoop` / `ReadLoops` / `WholeLit` ASSUME is proved for every oracle and all capacities.
+
+## Method
+
+A writer is observed through a `Snap` (`fd`: the bytes on the descriptor; `all`: everything accepted so far, in
+order = `fd ++` the buffers; the unused `oracle`; the sticky-error flag).  `Adv s s' x` ("accepted `x`":
+`all' = all ++ x`, `fd` only grows, the oracle only shrinks, a dead sink stays dead and moves nothing) is what
+EVERY operation does; `WriteSpec` / `WriteAllSpec` / `FlushSpec` add what the result says.  `Spec W V` is the
+`Write` contract.  Then, compositionally:
+
+* `Sink.spec`  — fd 1 keeps it (`defaultWriteAll_spec`: the loop of io/mod.rs:1857-1869);
+* `BufWriter.spec : Spec W V → Spec (BufWriter.writer W) (BufWriter.view V)` (`flushBufLoop_spec`, `flushBuf_spec`);
+* `LineWriter.spec : Spec W V → Spec (LineWriter.writer W) (LineWriter.view V)` (`Shim.write_spec`,
+  `Shim.writeAll_spec`, `tailOf_spec`);
+* `stdout_spec` — `BufWriter<StdoutLock>` = `BufWriter` over `LineWriter` over fd 1.
+
+Each spec contains: no checked operation fails and no retry loop runs out of the fuel `budget + len + 1`
+(`safe`; `budget` = unused answers: an `EINTR` uses one up, a successful `write` makes progress — the fairness
+hypothesis "finitely many `EINTR` in a row" is the finiteness of the oracle list, so it is structural);
+`write_all` / `flush` never return `Interrupted`; with a fault-free OS (`benign`: short writes and `EINTR` only)
+everything returns `Ok`; with sticky errors only (`hard`) an `Err` means the sink is dead and something that was
+accepted or offered did not arrive.  Readers: `ReadSpec` / `RSpec` (an empty read into a non-empty destination
+means END OF INPUT), `Src.spec`, `BufReader.spec`, `fillBuf_spec`.
+
+## Headlines (all capacities, every oracle unless said otherwise; no `wf` hypothesis in the `main`-level ones)
+
+* **W1** `W1_fault_free`, `W1_session`: fault-free OS ⇒ every `write_all` and the `flush` return `Ok`, both buffers
+  are empty after `flush`, fd 1 holds exactly `x₁ ++ … ++ xₖ`.  Witness of the seeded defect "flush only if the
+  `BufWriter` is not empty": `big_write_leaves_tail_in_LineWriter` (one `write_all ≥ capacity` ending in an
+  unterminated tail shorter than the `LineWriter`: EMPTY `BufWriter`, tail in the `LineWriter`),
+  `skipped_flush_silent_loss` (status 0, tail lost) vs `real_main_reports` (status 1), instantiated at 65536 / 1024;
+  `skipped_flush_hidden_when_fault_free` (why differential tests without write faults cannot see it: the residue
+  is written by `std::rt::cleanup`, whose errors are ignored).
+* **W2** `mainWrites_spec`, `W2_prefix_and_no_silent_loss`: fd 1 holds a PREFIX of the output; status 0 or 1; anything
+  missing ⇒ status 1.  `W2_deliver`: `∃ limit, fd = (deliver ⟨out, ok⟩ limit).out`, status 0 ⇒ `deliver` says `ok`,
+  and for sticky errors the statuses are equal.  `mainWritesThenErr_spec`: the engine-error path (no `flush`, drops
+  only): prefix, status 1, complete if the OS does not fail.
+* **W3** `write_is_short` (+ the instance at 65536 / 1024: a 70001-byte slice, `write` returns 65536);
+  `write_small_never_short`: below the capacity `write` returns `Ok(len)` or the `Err` of `flush_buf`, never a
+  short count.
+* **R1** `R1_fill_buf_empty_only_at_eof`; `capacity_zero_reads_nothing`; `R1_chunks` (the chunks of
+  `fill_buf` / `consume(len)`: non-empty, concatenation = the file), `R1_chunks_any_oracle`; and the simulation
+  `sim_fillBuf` / `sim_consume` / `R1_initial_segs`: the literal `BufReader<StdinLock>` and the chunk list
+  `segsOf` answer `fill_buf` / `consume` alike (the `fillBuf` / `consume` of `Tuc.Model.StreamLoop`), `segsOf`
+  has no empty chunk and its concatenation is the input — the hypothesis `∀ s ∈ segs, s ≠ []` of
+  `Tuc.Props.StreamLoop` / `ReadLoops` / `WholeLit` is discharged from the `read(2)` contract.
+
+## Hypotheses, and why they cannot be dropped
+
+* `∀ a ∈ oracle, a.hard` in the last clause of `W2_deliver` (every error is sticky, no `Ok(0)`): with a TRANSIENT
+  error `flush` fails, then `Drop for BufWriter` delivers: status 1 although fd 1 is complete —
+  `#guard mainWrites 4 2 [.err false] … = (.fail, ⟨everything⟩)`, same for `[.zero]`.  `deliver` cannot express
+  "complete and failed".  The real program can reach it (`EAGAIN` on a non-blocking stdout); it errs on the safe
+  side (C14 is about status 0 ⇒ complete, which holds for every oracle).
+* `buf.length < bw.cap` in `write_small_never_short`: `write_is_short`.
+* `0 < capacity` in R1: `capacity_zero_reads_nothing` / `#guard drainLoop … (Stdin.new 0 8192 …) = ([], .ok)`.
+  `main` passes the literal `64 * 1024`.
+* `RAns.err ∉ oracle` in `R1_chunks` / the simulation: a read error ends the run (`R1_chunks_any_oracle`: prefix,
+  status 1; `Tuc.Props.C14` `read_fault_*`).  `EINTR` is allowed when the caller retries (`fillBufRetry`, what
+  `std::io::read_until` does).  NOTE: `fill_buf` itself does not retry (`buffer.rs:157 result?`), and
+  `stream.rs:295` / bstr `for_byte_record_with_terminator` use `fill_buf()?`: an `EINTR` on fd 0 would end tuc with
+  status 1.  tuc installs no signal handler, so `read(2)` is restarted by the kernel; not a defect, a dependency.
+* `Filled` in `sim_consume` (`consume` only after a `fill_buf`, as the `BufRead` contract demands and every engine
+  does): `#guard`s at the end of §13.
+* `wf` (`buf.len() ≤ capacity`, `pos ≤ filled ≤ capacity`) in the state-level lemmas: an invariant (`Spec.write` …
+  return it, `Stdout.new_wf`, `Stdin.new_wf`), not an input condition.
+-/
+
 namespace Tuc
 namespace StdioLit
 
@@ -425,7 +500,2017 @@ theorem flushBuf_spec (hW : Spec W V) (bw : BufWriter ω) (r : IoRes Unit) (bw' 
     simp only [List.length_drop, List.length_nil] at this
     omega
 
+theorem WriteSpec.after {s s0 s' : Snap} {buf : Bytes} {r : IoRes Nat} (h0 : Adv s s0 [])
+    (h : WriteSpec s0 s' buf r) : WriteSpec s s' buf r where
+  adv := (h0.trans h.adv).cast (by simp)
+  le := h.le
+  safe := h.safe
+  intr := fun hr => by have := h.intr hr; have := h0.oracle_le; omega
+  clean := fun hf => h.clean (h0.faultFree hf)
+  sticky := fun hs => h.sticky (h0.sticky hs)
+
+theorem WriteAllSpec.after {s s0 s' : Snap} {buf : Bytes} {r : IoRes Unit} (h0 : Adv s s0 [])
+    (h : WriteAllSpec s0 s' buf r) : WriteAllSpec s s' buf r where
+  adv := by
+    obtain ⟨k, hk, ha, hok, hst⟩ := h.adv
+    exact ⟨k, hk, (h0.trans ha).cast (by simp), hok, fun hs => hst (h0.sticky hs)⟩
+  safe := h.safe
+  noIntr := h.noIntr
+  clean := fun hf => h.clean (h0.faultFree hf)
+
+/-- bufwriter.rs:365-367 / 407-409 `if buf.len() > self.spare_capacity() { self.flush_buf()?; }` -/
+structure PreSpec (V : View ω) (bw bw0 : BufWriter ω) (buf : Bytes) (r0 : IoRes Unit) : Prop where
+  wf : (BufWriter.view V).wf bw0
+  cap : bw0.cap = bw.cap
+  adv : Adv ((BufWriter.view V).snap bw) ((BufWriter.view V).snap bw0) []
+  safe : r0 ≠ .panic ∧ r0 ≠ .hang
+  noIntr : r0 ≠ .err .interrupted
+  clean : ((BufWriter.view V).snap bw).faultFree → r0 = .ok ()
+  room : r0 = .ok () → buf.length ≤ bw0.cap - bw0.buf.length ∨ bw0.buf = []
+  sticky : ((BufWriter.view V).snap bw).sticky → ∀ e, r0 = .err e →
+    ((BufWriter.view V).snap bw0).dead = true ∧ buf ≠ []
+
+theorem pre_spec (hW : Spec W V) (bw : BufWriter ω) (buf : Bytes) (r0 : IoRes Unit) (bw0 : BufWriter ω)
+    (hwf : (BufWriter.view V).wf bw)
+    (h : (if buf.length > bw.spareCapacity then BufWriter.flushBuf W bw else (.ok (), bw)) = (r0, bw0)) :
+    PreSpec V bw bw0 buf r0 := by
+  by_cases hc : buf.length > bw.spareCapacity
+  · simp only [hc, if_true] at h
+    have sp := flushBuf_spec hW bw r0 bw0 hwf h
+    exact ⟨sp.wf, sp.cap, sp.adv, sp.safe, sp.noIntr, sp.clean, fun hr => .inr (sp.done hr),
+      fun hs e he => ⟨(sp.sticky hs e he).1, by intro h0; subst h0; simp at hc⟩⟩
+  · simp only [hc, if_false, Prod.mk.injEq] at h
+    obtain ⟨rfl, rfl⟩ := h
+    exact ⟨hwf, rfl, Adv.refl _, by simp, by simp, fun _ => rfl,
+      fun _ => .inl (by simpa [BufWriter.spareCapacity] using hc), fun _ e he => by cases he⟩
+
+theorem PreSpec.writeErr {bw bw0 : BufWriter ω} {buf : Bytes} {e : IoErr} (ps : PreSpec V bw bw0 buf (.err e)) :
+    WriteSpec ((BufWriter.view V).snap bw) ((BufWriter.view V).snap bw0) buf (.err e) where
+  adv := by simpa [IoRes.count] using ps.adv
+  le := by simp [IoRes.count]
+  safe := by simp
+  intr := fun h => by cases h; exact absurd rfl ps.noIntr
+  clean := fun hf => by have := ps.clean hf; cases this
+  sticky := fun hs _ => ⟨by simp, fun e' he' _ => by cases he'; exact (ps.sticky hs e rfl).1⟩
+
+theorem PreSpec.writeAllErr {bw bw0 : BufWriter ω} {buf : Bytes} {e : IoErr} (ps : PreSpec V bw bw0 buf (.err e)) :
+    WriteAllSpec ((BufWriter.view V).snap bw) ((BufWriter.view V).snap bw0) buf (.err e) where
+  adv := ⟨0, by simp, by simpa using ps.adv, by simp, fun hs e' he' => by
+    cases he'
+    exact ⟨(ps.sticky hs e rfl).1, .inr (List.length_pos_iff.mpr (ps.sticky hs e rfl).2)⟩⟩
+  safe := by simp
+  noIntr := ps.noIntr
+  clean := fun hf => by have := ps.clean hf; cases this
+
+/-- appending to the buffer -/
+theorem buffered_adv (bw : BufWriter ω) (buf : Bytes) :
+    Adv ((BufWriter.view V).snap bw) ((BufWriter.view V).snap { bw with buf := bw.buf ++ buf }) buf :=
+  (Adv.refl (V.snap bw.inner)).lift (by simp)
+
+theorem write_buffered (bw : BufWriter ω) (buf : Bytes) :
+    WriteSpec ((BufWriter.view V).snap bw) ((BufWriter.view V).snap { bw with buf := bw.buf ++ buf }) buf
+      (.ok buf.length) where
+  adv := by simpa [IoRes.count] using buffered_adv (V := V) bw buf
+  le := by simp [IoRes.count]
+  safe := by simp
+  intr := by simp
+  clean := fun _ => .inl ⟨_, rfl⟩
+  sticky := fun _ hb => ⟨fun n hn => by cases hn; exact List.length_pos_iff.mpr hb, by simp⟩
+
+theorem writeAll_buffered (bw : BufWriter ω) (buf : Bytes) :
+    WriteAllSpec ((BufWriter.view V).snap bw) ((BufWriter.view V).snap { bw with buf := bw.buf ++ buf }) buf
+      (.ok ()) where
+  adv := ⟨buf.length, Nat.le_refl _, by simpa using buffered_adv (V := V) bw buf, fun _ => rfl,
+    fun _ e he => by cases he⟩
+  safe := by simp
+  noIntr := by simp
+  clean := fun _ => rfl
+
+theorem room_empty {bw0 : BufWriter ω} {buf : Bytes} (hwf : (BufWriter.view V).wf bw0)
+    (hroom : buf.length ≤ bw0.cap - bw0.buf.length ∨ bw0.buf = []) (hc : buf.length ≥ bw0.cap) : bw0.buf = [] := by
+  rcases hroom with h | h
+  · have := hwf.1
+    exact List.eq_nil_of_length_eq_zero (by omega)
+  · exact h
+
+theorem room_fits {bw0 : BufWriter ω} {buf : Bytes}
+    (hroom : buf.length ≤ bw0.cap - bw0.buf.length ∨ bw0.buf = []) (hc : ¬ buf.length ≥ bw0.cap) :
+    buf.length ≤ bw0.spareCapacity := by
+  rcases hroom with h | h
+  · exact h
+  · simp only [BufWriter.spareCapacity, h, List.length_nil]; omega
+
+theorem writeCold_spec (hW : Spec W V) (bw : BufWriter ω) (buf : Bytes) (r : IoRes Nat) (bw' : BufWriter ω)
+    (hwf : (BufWriter.view V).wf bw) (h : BufWriter.writeCold W bw buf = (r, bw')) :
+    (BufWriter.view V).wf bw' ∧ bw'.cap = bw.cap ∧
+      WriteSpec ((BufWriter.view V).snap bw) ((BufWriter.view V).snap bw') buf r := by
+  unfold BufWriter.writeCold at h
+  generalize hp : (if buf.length > bw.spareCapacity then BufWriter.flushBuf W bw else (.ok (), bw)) = p at h
+  obtain ⟨r0, bw0⟩ := p
+  have ps := pre_spec hW bw buf r0 bw0 hwf hp
+  cases r0 with
+  | ok u =>
+    simp only [andThen] at h
+    have hroom := ps.room rfl
+    by_cases hc : buf.length ≥ bw0.cap
+    · have hemp := room_empty ps.wf hroom hc
+      simp only [hc, if_true] at h
+      generalize hq : W.write bw0.inner buf = q at h
+      obtain ⟨r1, w1⟩ := q
+      simp only [mapState, Prod.mk.injEq] at h
+      obtain ⟨rfl, rfl⟩ := h
+      obtain ⟨hwf1, sp⟩ := hW.write _ _ _ _ ps.wf.2 hq
+      refine ⟨⟨by simpa using ps.wf.1, hwf1⟩, ps.cap, WriteSpec.after ps.adv ⟨?_, sp.le, sp.safe, sp.intr, sp.clean, sp.sticky⟩⟩
+      have := sp.adv.lift (b := []) (b' := []) (y := buf.take (IoRes.count r1)) (by simp)
+      simpa [BufWriter.view, hemp] using this
+    · have hfit := room_fits hroom hc
+      simp only [hc, if_false, BufWriter.writeToBufferUnchecked, hfit, if_true, Prod.mk.injEq] at h
+      obtain ⟨rfl, rfl⟩ := h
+      refine ⟨⟨?_, ps.wf.2⟩, ps.cap, WriteSpec.after ps.adv (write_buffered bw0 buf)⟩
+      simp only [List.length_append, BufWriter.spareCapacity] at hfit ⊢
+      have := ps.wf.1
+      omega
+  | err e =>
+    simp only [andThen, id, Prod.mk.injEq] at h
+    obtain ⟨rfl, rfl⟩ := h
+    exact ⟨ps.wf, ps.cap, ps.writeErr⟩
+  | panic => exact absurd rfl ps.safe.1
+  | hang => exact absurd rfl ps.safe.2
+
+theorem BufWriter.write_spec (hW : Spec W V) (bw : BufWriter ω) (buf : Bytes) (r : IoRes Nat) (bw' : BufWriter ω)
+    (hwf : (BufWriter.view V).wf bw) (h : BufWriter.write W bw buf = (r, bw')) :
+    (BufWriter.view V).wf bw' ∧ bw'.cap = bw.cap ∧
+      WriteSpec ((BufWriter.view V).snap bw) ((BufWriter.view V).snap bw') buf r := by
+  unfold BufWriter.write at h
+  by_cases hc : buf.length < bw.spareCapacity
+  · have hfit : buf.length ≤ bw.spareCapacity := Nat.le_of_lt hc
+    simp only [hc, if_true, BufWriter.writeToBufferUnchecked, hfit, Prod.mk.injEq] at h
+    obtain ⟨rfl, rfl⟩ := h
+    refine ⟨⟨?_, hwf.2⟩, rfl, write_buffered bw buf⟩
+    simp only [List.length_append, BufWriter.spareCapacity] at hfit ⊢
+    have := hwf.1
+    omega
+  · simp only [hc, if_false] at h
+    exact writeCold_spec hW bw buf r bw' hwf h
+
+theorem writeAllCold_spec (hW : Spec W V) (bw : BufWriter ω) (buf : Bytes) (r : IoRes Unit) (bw' : BufWriter ω)
+    (hwf : (BufWriter.view V).wf bw) (h : BufWriter.writeAllCold W bw buf = (r, bw')) :
+    (BufWriter.view V).wf bw' ∧ bw'.cap = bw.cap ∧
+      WriteAllSpec ((BufWriter.view V).snap bw) ((BufWriter.view V).snap bw') buf r := by
+  unfold BufWriter.writeAllCold at h
+  generalize hp : (if buf.length > bw.spareCapacity then BufWriter.flushBuf W bw else (.ok (), bw)) = p at h
+  obtain ⟨r0, bw0⟩ := p
+  have ps := pre_spec hW bw buf r0 bw0 hwf hp
+  cases r0 with
+  | ok u =>
+    simp only [andThen] at h
+    have hroom := ps.room rfl
+    by_cases hc : buf.length ≥ bw0.cap
+    · have hemp := room_empty ps.wf hroom hc
+      simp only [hc, if_true] at h
+      generalize hq : W.writeAll bw0.inner buf = q at h
+      obtain ⟨r1, w1⟩ := q
+      simp only [mapState, Prod.mk.injEq] at h
+      obtain ⟨rfl, rfl⟩ := h
+      obtain ⟨hwf1, sp⟩ := hW.writeAll _ _ _ _ ps.wf.2 hq
+      refine ⟨⟨by simpa using ps.wf.1, hwf1⟩, ps.cap, WriteAllSpec.after ps.adv ⟨?_, sp.safe, sp.noIntr, sp.clean⟩⟩
+      obtain ⟨k, hk, ha, hok, hst⟩ := sp.adv
+      refine ⟨k, hk, ?_, hok, fun hs e he => ?_⟩
+      · have := ha.lift (b := []) (b' := []) (y := buf.take k) (by simp)
+        simpa [BufWriter.view, hemp] using this
+      · obtain ⟨a, b⟩ := hst hs e he
+        refine ⟨a, ?_⟩
+        simpa [BufWriter.view, hemp] using b
+    · have hfit := room_fits hroom hc
+      simp only [hc, if_false, BufWriter.writeToBufferUnchecked, hfit, if_true, Prod.mk.injEq] at h
+      obtain ⟨rfl, rfl⟩ := h
+      refine ⟨⟨?_, ps.wf.2⟩, ps.cap, WriteAllSpec.after ps.adv (writeAll_buffered bw0 buf)⟩
+      simp only [List.length_append, BufWriter.spareCapacity] at hfit ⊢
+      have := ps.wf.1
+      omega
+  | err e =>
+    simp only [andThen, id, Prod.mk.injEq] at h
+    obtain ⟨rfl, rfl⟩ := h
+    exact ⟨ps.wf, ps.cap, ps.writeAllErr⟩
+  | panic => exact absurd rfl ps.safe.1
+  | hang => exact absurd rfl ps.safe.2
+
+theorem BufWriter.writeAll_spec (hW : Spec W V) (bw : BufWriter ω) (buf : Bytes) (r : IoRes Unit)
+    (bw' : BufWriter ω) (hwf : (BufWriter.view V).wf bw) (h : BufWriter.writeAll W bw buf = (r, bw')) :
+    (BufWriter.view V).wf bw' ∧ bw'.cap = bw.cap ∧
+      WriteAllSpec ((BufWriter.view V).snap bw) ((BufWriter.view V).snap bw') buf r := by
+  unfold BufWriter.writeAll at h
+  by_cases hc : buf.length < bw.spareCapacity
+  · have hfit : buf.length ≤ bw.spareCapacity := Nat.le_of_lt hc
+    simp only [hc, if_true, BufWriter.writeToBufferUnchecked, hfit, Prod.mk.injEq] at h
+    obtain ⟨rfl, rfl⟩ := h
+    refine ⟨⟨?_, hwf.2⟩, rfl, writeAll_buffered bw buf⟩
+    simp only [List.length_append, BufWriter.spareCapacity] at hfit ⊢
+    have := hwf.1
+    omega
+  · simp only [hc, if_false] at h
+    exact writeAllCold_spec hW bw buf r bw' hwf h
+
+theorem fd_lt_all (hW : Spec W V) {bw : BufWriter ω} (hwf : (BufWriter.view V).wf bw) (hb : bw.buf ≠ []) :
+    ((BufWriter.view V).snap bw).fd.length < ((BufWriter.view V).snap bw).all.length := by
+  have := (hW.fdPrefix bw.inner hwf.2).length_le
+  have := List.length_pos_iff.mpr hb
+  simp only [BufWriter.view, List.length_append]
+  omega
+
+theorem BufWriter.flush_spec (hW : Spec W V) (bw : BufWriter ω) (r : IoRes Unit) (bw' : BufWriter ω)
+    (hwf : (BufWriter.view V).wf bw) (h : BufWriter.flush W bw = (r, bw')) :
+    (BufWriter.view V).wf bw' ∧ bw'.cap = bw.cap ∧
+      FlushSpec ((BufWriter.view V).snap bw) ((BufWriter.view V).snap bw') r := by
+  unfold BufWriter.flush at h
+  generalize hp : BufWriter.flushBuf W bw = p at h
+  obtain ⟨r0, bw0⟩ := p
+  have ps := flushBuf_spec hW bw r0 bw0 hwf hp
+  cases r0 with
+  | ok u =>
+    simp only [andThen] at h
+    generalize hq : W.flush bw0.inner = q at h
+    obtain ⟨r1, w1⟩ := q
+    simp only [mapState, Prod.mk.injEq] at h
+    obtain ⟨rfl, rfl⟩ := h
+    obtain ⟨hwf1, sp⟩ := hW.flush _ _ _ ps.wf.2 hq
+    have hemp := ps.done rfl
+    have hadv : Adv ((BufWriter.view V).snap bw0) ((BufWriter.view V).snap { bw0 with inner := w1 }) [] := by
+      have := sp.adv.lift (b := []) (b' := []) (y := []) (by simp)
+      simpa [BufWriter.view, hemp] using this
+    refine ⟨⟨by simpa using ps.wf.1, hwf1⟩, ps.cap, (ps.adv.trans hadv).cast (by simp), sp.safe, sp.noIntr,
+      fun hf => sp.clean (ps.adv.faultFree hf), fun hr => ?_, fun hs e he => ?_⟩
+    · simpa [BufWriter.view, hemp] using sp.done hr
+    · obtain ⟨a, b⟩ := sp.sticky (ps.adv.sticky hs) e he
+      refine ⟨a, ?_⟩
+      simpa [BufWriter.view, hemp] using b
+  | err e =>
+    simp only [andThen, id, Prod.mk.injEq] at h
+    obtain ⟨rfl, rfl⟩ := h
+    refine ⟨ps.wf, ps.cap, ps.adv, by simp, ps.noIntr, fun hf => (by have := ps.clean hf; cases this), by simp,
+      fun hs e' he' => ?_⟩
+    cases he'
+    exact ⟨(ps.sticky hs e rfl).1, fd_lt_all hW ps.wf (ps.sticky hs e rfl).2⟩
+  | panic => exact absurd rfl ps.safe.1
+  | hang => exact absurd rfl ps.safe.2
+
+/-- **`BufWriter<W>` keeps the `Write` contract if `W` does** (any capacity) -/
+theorem BufWriter.spec (hW : Spec W V) : Spec (BufWriter.writer W) (BufWriter.view V) where
+  fdPrefix := fun bw hwf => (hW.fdPrefix bw.inner hwf.2).trans (List.prefix_append _ _)
+  budget := fun bw => hW.budget bw.inner
+  write := fun bw buf r bw' hwf h => by
+    have := BufWriter.write_spec hW bw buf r bw' hwf h
+    exact ⟨this.1, this.2.2⟩
+  writeAll := fun bw buf r bw' hwf h => by
+    have := BufWriter.writeAll_spec hW bw buf r bw' hwf h
+    exact ⟨this.1, this.2.2⟩
+  flush := fun bw r bw' hwf h => by
+    have := BufWriter.flush_spec hW bw r bw' hwf h
+    exact ⟨this.1, this.2.2⟩
+
+/-! ## 3. `LineWriterShim` / `LineWriter` -/
+
+/-- an operation that accepts nothing new (`flush_buf`, `flush_if_completed_line`) -/
+structure StepSpec (s s' : Snap) (r : IoRes Unit) : Prop where
+  adv : Adv s s' []
+  safe : r ≠ .panic ∧ r ≠ .hang
+  noIntr : r ≠ .err .interrupted
+  clean : s.faultFree → r = .ok ()
+  sticky : s.sticky → ∀ e, r = .err e → s'.dead = true ∧ s'.fd.length < s'.all.length
+
+theorem FlushBufSpec.step (hW : Spec W V) {bw bw' : BufWriter ω} {r : IoRes Unit} (h : FlushBufSpec V bw bw' r) :
+    StepSpec ((BufWriter.view V).snap bw) ((BufWriter.view V).snap bw') r :=
+  ⟨h.adv, h.safe, h.noIntr, h.clean, fun hs e he => ⟨(h.sticky hs e he).1, fd_lt_all hW h.wf (h.sticky hs e he).2⟩⟩
+
+theorem StepSpec.writeErr {s s' : Snap} {e : IoErr} (buf : Bytes) (h : StepSpec s s' (.err e)) :
+    WriteSpec s s' buf (.err e) where
+  adv := by simpa [IoRes.count] using h.adv
+  le := by simp [IoRes.count]
+  safe := by simp
+  intr := fun hr => by cases hr; exact absurd rfl h.noIntr
+  clean := fun hf => by have := h.clean hf; cases this
+  sticky := fun hs _ => ⟨by simp, fun e' he' _ => by cases he'; exact (h.sticky hs e rfl).1⟩
+
+theorem StepSpec.writeAllErr {s s' : Snap} {e : IoErr} (buf : Bytes) (h : StepSpec s s' (.err e)) :
+    WriteAllSpec s s' buf (.err e) where
+  adv := ⟨0, by simp, by simpa using h.adv, by simp, fun hs e' he' => by
+    cases he'
+    exact ⟨(h.sticky hs e rfl).1, .inl (h.sticky hs e rfl).2⟩⟩
+  safe := by simp
+  noIntr := h.noIntr
+  clean := fun hf => by have := h.clean hf; cases this
+
+theorem WriteAllSpec.append {s s1 s2 : Snap} {x y : Bytes} {r : IoRes Unit} (h1 : WriteAllSpec s s1 x (.ok ()))
+    (h2 : WriteAllSpec s1 s2 y r) : WriteAllSpec s s2 (x ++ y) r where
+  adv := by
+    obtain ⟨k1, _, ha1, hok1, _⟩ := h1.adv
+    obtain ⟨k, hk, ha, hok, hst⟩ := h2.adv
+    have hk1 := hok1 rfl
+    subst hk1
+    simp only [List.take_length] at ha1
+    refine ⟨x.length + k, by simp; omega, (ha1.trans ha).cast ?_, fun hr => by simp [hok hr],
+      fun hs e he => ?_⟩
+    · rw [List.take_length_add_append]
+    · obtain ⟨a, b⟩ := hst (ha1.sticky hs) e he
+      exact ⟨a, by simp only [List.length_append]; omega⟩
+  safe := h2.safe
+  noIntr := h2.noIntr
+  clean := fun hf => by
+    obtain ⟨k1, _, ha1, _, _⟩ := h1.adv
+    exact h2.clean (ha1.faultFree hf)
+
+theorem WriteAllSpec.errLeft {s s1 : Snap} {x : Bytes} {e : IoErr} (y : Bytes) (h1 : WriteAllSpec s s1 x (.err e)) :
+    WriteAllSpec s s1 (x ++ y) (.err e) where
+  adv := by
+    obtain ⟨k, hk, ha, _, hst⟩ := h1.adv
+    refine ⟨k, by simp; omega, ha.cast ?_, by simp, fun hs e' he' => ?_⟩
+    · rw [List.take_append_of_le_length hk]
+    · obtain ⟨a, b⟩ := hst hs e' he'
+      exact ⟨a, by simp only [List.length_append]; omega⟩
+  safe := by simp
+  noIntr := h1.noIntr
+  clean := h1.clean
+
+theorem WriteAllSpec.thenStep {s s1 s2 : Snap} {x : Bytes} {r : IoRes Unit} (h1 : WriteAllSpec s s1 x (.ok ()))
+    (h2 : StepSpec s1 s2 r) : WriteAllSpec s s2 x r where
+  adv := by
+    obtain ⟨k1, hk1, ha1, hok1, _⟩ := h1.adv
+    refine ⟨k1, hk1, (ha1.trans h2.adv).cast (by simp), fun _ => hok1 rfl, fun hs e he => ?_⟩
+    obtain ⟨a, b⟩ := h2.sticky (ha1.sticky hs) e he
+    exact ⟨a, .inl b⟩
+  safe := h2.safe
+  noIntr := h2.noIntr
+  clean := fun hf => by
+    obtain ⟨k1, _, ha1, _, _⟩ := h1.adv
+    exact h2.clean (ha1.faultFree hf)
+
+/-- a call on the writer below a `BufWriter` whose buffer is empty, seen from above -/
+theorem liftEmpty_adv {b : BufWriter ω} {w1 : ω} {x : Bytes} (hemp : b.buf = [])
+    (ha : Adv (V.snap b.inner) (V.snap w1) x) :
+    Adv ((BufWriter.view V).snap b) ((BufWriter.view V).snap { b with inner := w1 }) x := by
+  have := ha.lift (b := []) (b' := []) (y := x) (by simp)
+  simpa [BufWriter.view, hemp] using this
+
+theorem liftEmpty_write {b : BufWriter ω} {w1 : ω} {x : Bytes} {r : IoRes Nat} (hemp : b.buf = [])
+    (sp : WriteSpec (V.snap b.inner) (V.snap w1) x r) :
+    WriteSpec ((BufWriter.view V).snap b) ((BufWriter.view V).snap { b with inner := w1 }) x r :=
+  ⟨liftEmpty_adv hemp sp.adv, sp.le, sp.safe, sp.intr, sp.clean, sp.sticky⟩
+
+theorem liftEmpty_writeAll {b : BufWriter ω} {w1 : ω} {x : Bytes} {r : IoRes Unit} (hemp : b.buf = [])
+    (sp : WriteAllSpec (V.snap b.inner) (V.snap w1) x r) :
+    WriteAllSpec ((BufWriter.view V).snap b) ((BufWriter.view V).snap { b with inner := w1 }) x r := by
+  refine ⟨?_, sp.safe, sp.noIntr, sp.clean⟩
+  obtain ⟨k, hk, ha, hok, hst⟩ := sp.adv
+  refine ⟨k, hk, liftEmpty_adv hemp ha, hok, fun hs e he => ?_⟩
+  obtain ⟨a, b⟩ := hst hs e he
+  refine ⟨a, ?_⟩
+  simpa [BufWriter.view, hemp] using b
+
+theorem memrchr_lt (c : UInt8) : ∀ (buf : Bytes) (i : Nat), memrchr c buf = some i → i < buf.length
+  | [], i, h => by simp [memrchr] at h
+  | x :: t, i, h => by
+    unfold memrchr at h
+    cases ht : memrchr c t with
+    | some j =>
+      simp only [ht, Option.some.injEq] at h
+      have := memrchr_lt c t j ht
+      simp only [List.length_cons]
+      omega
+    | none =>
+      simp only [ht] at h
+      split at h
+      · cases h; simp
+      · cases h
+
+theorem flushIfCompletedLine_spec (hW : Spec W V) (b : BufWriter ω) (r : IoRes Unit) (b' : BufWriter ω)
+    (hwf : (BufWriter.view V).wf b) (h : Shim.flushIfCompletedLine W b = (r, b')) :
+    (BufWriter.view V).wf b' ∧ b'.cap = b.cap ∧
+      StepSpec ((BufWriter.view V).snap b) ((BufWriter.view V).snap b') r := by
+  unfold Shim.flushIfCompletedLine at h
+  split at h
+  · have sp := flushBuf_spec hW b r b' hwf h
+    exact ⟨sp.wf, sp.cap, sp.step hW⟩
+  · simp only [Prod.mk.injEq] at h
+    obtain ⟨rfl, rfl⟩ := h
+    exact ⟨hwf, rfl, Adv.refl _, by simp, by simp, fun _ => rfl, fun _ e he => by cases he⟩
+
+theorem writeToBuf_eq (b : BufWriter ω) (t : Bytes) :
+    b.writeToBuf t = some (min b.spareCapacity t.length,
+      { b with buf := b.buf ++ t.take (min b.spareCapacity t.length) }) := by
+  unfold BufWriter.writeToBuf
+  have h1 : min b.spareCapacity t.length ≤ t.length := Nat.min_le_right _ _
+  simp only [sliceTo_some h1, BufWriter.writeToBufferUnchecked, List.length_take]
+  rw [if_pos]
+  omega
+
+theorem tailOf_spec (cap : Nat) (buf : Bytes) (nl fl : Nat) (h1 : fl ≤ nl) (h2 : nl ≤ buf.length) :
+    Shim.tailOf cap buf nl fl ≠ .panic ∧ ∀ t, Shim.tailOf cap buf nl fl = .tail t → t <+: buf.drop fl := by
+  have hfl : fl ≤ buf.length := Nat.le_trans h1 h2
+  unfold Shim.tailOf
+  by_cases hc1 : fl ≥ nl
+  · simp only [hc1, if_true, sliceFrom_some hfl]
+    split
+    · exact ⟨by simp, by simp⟩
+    · exact ⟨by simp, fun t ht => by cases ht; exact List.prefix_refl _⟩
+  · simp only [hc1, if_false]
+    by_cases hc2 : nl - fl ≤ cap
+    · have : fl ≤ nl ∧ nl ≤ buf.length := ⟨h1, h2⟩
+      simp only [hc2, if_true, sliceRange, this, and_self, Shim.Tail.ofOption]
+      exact ⟨by simp, fun t ht => by cases ht; exact List.take_prefix _ _⟩
+    · have hcap : cap ≤ (buf.drop fl).length := by simp only [List.length_drop]; omega
+      simp only [hc2, if_false, sliceFrom_some hfl, sliceTo_some hcap]
+      cases hm : memrchr 0x0A ((buf.drop fl).take cap) with
+      | none => exact ⟨by simp, fun t ht => by cases ht; exact List.take_prefix _ _⟩
+      | some i =>
+        have hi := memrchr_lt _ _ _ hm
+        have : i + 1 ≤ ((buf.drop fl).take cap).length := hi
+        simp only [sliceTo_some this, Shim.Tail.ofOption]
+        exact ⟨by simp, fun t ht => by cases ht; exact (List.take_prefix _ _).trans (List.take_prefix _ _)⟩
+
+theorem take_of_prefix {t l : Bytes} (h : t <+: l) {n : Nat} (hn : n ≤ t.length) : t.take n = l.take n := by
+  obtain ⟨u, rfl⟩ := h
+  rw [List.take_append_of_le_length hn]
+
+theorem Shim.write_spec (hW : Spec W V) (b : BufWriter ω) (buf : Bytes) (r : IoRes Nat) (b' : BufWriter ω)
+    (hwf : (BufWriter.view V).wf b) (h : Shim.write W b buf = (r, b')) :
+    (BufWriter.view V).wf b' ∧ b'.cap = b.cap ∧
+      WriteSpec ((BufWriter.view V).snap b) ((BufWriter.view V).snap b') buf r := by
+  unfold Shim.write at h
+  cases hm : memrchr 0x0A buf with
+  | none =>
+    simp only [hm] at h
+    generalize hp : Shim.flushIfCompletedLine W b = p at h
+    obtain ⟨r0, b0⟩ := p
+    obtain ⟨hwf0, hcap0, sp0⟩ := flushIfCompletedLine_spec hW b r0 b0 hwf hp
+    cases r0 with
+    | ok u =>
+      simp only [andThen] at h
+      obtain ⟨hwf', hcap', sp⟩ := BufWriter.write_spec hW b0 buf r b' hwf0 h
+      exact ⟨hwf', hcap'.trans hcap0, WriteSpec.after sp0.adv sp⟩
+    | err e =>
+      simp only [andThen, id, Prod.mk.injEq] at h
+      obtain ⟨rfl, rfl⟩ := h
+      exact ⟨hwf0, hcap0, sp0.writeErr buf⟩
+    | panic => exact absurd rfl sp0.safe.1
+    | hang => exact absurd rfl sp0.safe.2
+  | some idx =>
+    have hidx := memrchr_lt _ _ _ hm
+    have hnl : idx + 1 ≤ buf.length := hidx
+    simp only [hm] at h
+    generalize hp : BufWriter.flushBuf W b = p at h
+    obtain ⟨r0, b0⟩ := p
+    have fs := flushBuf_spec hW b r0 b0 hwf hp
+    have sp0 := fs.step hW
+    cases r0 with
+    | ok u =>
+      have hemp := fs.done rfl
+      simp only [andThen, sliceTo_some hnl] at h
+      generalize hq : W.write b0.inner (buf.take (idx + 1)) = q at h
+      obtain ⟨r1, w1⟩ := q
+      obtain ⟨hwf1, sp⟩ := hW.write _ _ _ _ fs.wf.2 hq
+      have hlines : buf.take (idx + 1) ≠ [] := by
+        intro h0
+        have := congrArg List.length h0
+        simp only [List.length_take, List.length_nil] at this
+        omega
+      have hwfb : (BufWriter.view V).wf { b0 with inner := w1 } := ⟨fs.wf.1, hwf1⟩
+      have sp1 := liftEmpty_write hemp sp
+      cases r1 with
+      | ok flushed =>
+        have hfl : flushed ≤ idx + 1 := by
+          have := sp.le
+          simp only [IoRes.count, List.length_take] at this
+          omega
+        have htake : (buf.take (idx + 1)).take flushed = buf.take flushed := by
+          rw [List.take_take, Nat.min_eq_left hfl]
+        have hadv1 : Adv ((BufWriter.view V).snap b0) ((BufWriter.view V).snap { b0 with inner := w1 })
+            (buf.take flushed) := by
+          have := sp1.adv
+          simp only [IoRes.count, htake] at this
+          exact this
+        simp only at h
+        by_cases hz : flushed = 0
+        · subst hz
+          simp only [if_true, Prod.mk.injEq] at h
+          obtain ⟨rfl, rfl⟩ := h
+          refine ⟨hwfb, fs.cap, WriteSpec.after sp0.adv ⟨by simpa [IoRes.count] using hadv1, by simp [IoRes.count],
+            by simp, by simp, fun _ => .inl ⟨_, rfl⟩, fun hs _ => ?_⟩⟩
+          have := (sp.sticky hs hlines).1 0 rfl
+          omega
+        · simp only [hz, if_false] at h
+          obtain ⟨hnp, htl⟩ := tailOf_spec b0.cap buf (idx + 1) flushed hfl hnl
+          cases ht : Shim.tailOf b0.cap buf (idx + 1) flushed with
+          | panic => exact absurd ht hnp
+          | ret =>
+            simp only [ht, Prod.mk.injEq] at h
+            obtain ⟨rfl, rfl⟩ := h
+            refine ⟨hwfb, fs.cap, WriteSpec.after sp0.adv ⟨by simpa [IoRes.count] using hadv1, ?_, by simp, by simp,
+              fun _ => .inl ⟨_, rfl⟩, fun _ _ => ⟨fun n hn => by cases hn; omega, by simp⟩⟩⟩
+            simp only [IoRes.count]
+            omega
+          | tail t =>
+            have hpre := htl t ht
+            simp only [ht, writeToBuf_eq, Prod.mk.injEq] at h
+            obtain ⟨rfl, rfl⟩ := h
+            have hamt : min (BufWriter.spareCapacity { b0 with inner := w1 }) t.length ≤ t.length :=
+              Nat.min_le_right _ _
+            have hamt2 : min (BufWriter.spareCapacity { b0 with inner := w1 }) t.length ≤ b0.cap :=
+              Nat.le_trans (Nat.min_le_left _ _) (Nat.sub_le _ _)
+            generalize min (BufWriter.spareCapacity { b0 with inner := w1 }) t.length = amt at hamt hamt2 ⊢
+            have htlen : t.length ≤ buf.length - flushed := by
+              have := hpre.length_le
+              simpa using this
+            refine ⟨⟨?_, hwf1⟩, fs.cap, WriteSpec.after sp0.adv ⟨?_, ?_, by simp, by simp,
+              fun _ => .inl ⟨_, rfl⟩, fun _ _ => ⟨fun n hn => by cases hn; omega, by simp⟩⟩⟩
+            · simp only [hemp, List.nil_append, List.length_take]
+              omega
+            · simp only [IoRes.count]
+              have h2 := buffered_adv (V := V) { b0 with inner := w1 } (t.take amt)
+              refine (hadv1.trans h2).cast ?_
+              rw [take_of_prefix hpre hamt, take_add']
+            · simp only [IoRes.count]
+              omega
+      | err e =>
+        simp only [Prod.mk.injEq] at h
+        obtain ⟨rfl, rfl⟩ := h
+        exact ⟨hwfb, fs.cap, WriteSpec.after sp0.adv ⟨by simpa [IoRes.count] using sp1.adv, by simp [IoRes.count],
+          by simp, sp1.intr, sp1.clean, fun hs _ => ⟨by simp, (sp1.sticky hs hlines).2⟩⟩⟩
+      | panic => exact absurd rfl sp.safe.1
+      | hang => exact absurd rfl sp.safe.2
+    | err e =>
+      simp only [andThen, id, Prod.mk.injEq] at h
+      obtain ⟨rfl, rfl⟩ := h
+      exact ⟨fs.wf, fs.cap, sp0.writeErr buf⟩
+    | panic => exact absurd rfl fs.safe.1
+    | hang => exact absurd rfl fs.safe.2
+
+/-- linewritershim.rs:280-291 -/
+theorem writeLines_spec (hW : Spec W V) (b : BufWriter ω) (lines : Bytes) (r : IoRes Unit) (b' : BufWriter ω)
+    (hwf : (BufWriter.view V).wf b)
+    (h : (if b.buf.isEmpty then mapState (fun inner => { b with inner := inner }) (W.writeAll b.inner lines)
+          else andThen (BufWriter.writeAll W b lines) (fun _ b => BufWriter.flushBuf W b) id) = (r, b')) :
+    (BufWriter.view V).wf b' ∧ b'.cap = b.cap ∧
+      WriteAllSpec ((BufWriter.view V).snap b) ((BufWriter.view V).snap b') lines r := by
+  by_cases hemp : b.buf = []
+  · simp only [hemp, List.isEmpty_nil, if_true] at h
+    generalize hq : W.writeAll b.inner lines = q at h
+    obtain ⟨r1, w1⟩ := q
+    simp only [mapState, Prod.mk.injEq] at h
+    obtain ⟨rfl, rfl⟩ := h
+    obtain ⟨hwf1, sp⟩ := hW.writeAll _ _ _ _ hwf.2 hq
+    exact ⟨⟨by simp, hwf1⟩, rfl, by simpa [hemp] using liftEmpty_writeAll hemp sp⟩
+  · have hne : b.buf.isEmpty = false := by cases hb : b.buf <;> simp_all
+    simp only [hne, Bool.false_eq_true, if_false] at h
+    generalize hp : BufWriter.writeAll W b lines = p at h
+    obtain ⟨r0, b0⟩ := p
+    obtain ⟨hwf0, hcap0, sp0⟩ := BufWriter.writeAll_spec hW b lines r0 b0 hwf hp
+    cases r0 with
+    | ok u =>
+      simp only [andThen] at h
+      have fs := flushBuf_spec hW b0 r b' hwf0 h
+      exact ⟨fs.wf, fs.cap.trans hcap0, sp0.thenStep (fs.step hW)⟩
+    | err e =>
+      simp only [andThen, id, Prod.mk.injEq] at h
+      obtain ⟨rfl, rfl⟩ := h
+      exact ⟨hwf0, hcap0, sp0⟩
+    | panic => exact absurd rfl sp0.safe.1
+    | hang => exact absurd rfl sp0.safe.2
+
+theorem Shim.writeAll_spec (hW : Spec W V) (b : BufWriter ω) (buf : Bytes) (r : IoRes Unit) (b' : BufWriter ω)
+    (hwf : (BufWriter.view V).wf b) (h : Shim.writeAll W b buf = (r, b')) :
+    (BufWriter.view V).wf b' ∧ b'.cap = b.cap ∧
+      WriteAllSpec ((BufWriter.view V).snap b) ((BufWriter.view V).snap b') buf r := by
+  unfold Shim.writeAll at h
+  cases hm : memrchr 0x0A buf with
+  | none =>
+    simp only [hm] at h
+    generalize hp : Shim.flushIfCompletedLine W b = p at h
+    obtain ⟨r0, b0⟩ := p
+    obtain ⟨hwf0, hcap0, sp0⟩ := flushIfCompletedLine_spec hW b r0 b0 hwf hp
+    cases r0 with
+    | ok u =>
+      simp only [andThen] at h
+      obtain ⟨hwf', hcap', sp⟩ := BufWriter.writeAll_spec hW b0 buf r b' hwf0 h
+      exact ⟨hwf', hcap'.trans hcap0, WriteAllSpec.after sp0.adv sp⟩
+    | err e =>
+      simp only [andThen, id, Prod.mk.injEq] at h
+      obtain ⟨rfl, rfl⟩ := h
+      exact ⟨hwf0, hcap0, sp0.writeAllErr buf⟩
+    | panic => exact absurd rfl sp0.safe.1
+    | hang => exact absurd rfl sp0.safe.2
+  | some idx =>
+    have hidx := memrchr_lt _ _ _ hm
+    have hnl : idx + 1 ≤ buf.length := hidx
+    simp only [hm, sliceTo_some hnl, sliceFrom_some hnl] at h
+    generalize hp : (if b.buf.isEmpty then
+        mapState (fun inner => { b with inner := inner }) (W.writeAll b.inner (buf.take (idx + 1)))
+      else andThen (BufWriter.writeAll W b (buf.take (idx + 1))) (fun _ b => BufWriter.flushBuf W b) id) = p at h
+    obtain ⟨r0, b0⟩ := p
+    obtain ⟨hwf0, hcap0, sp0⟩ := writeLines_spec hW b _ r0 b0 hwf hp
+    have hsplit : buf.take (idx + 1) ++ buf.drop (idx + 1) = buf := List.take_append_drop _ _
+    cases r0 with
+    | ok u =>
+      simp only [andThen] at h
+      obtain ⟨hwf', hcap', sp⟩ := BufWriter.writeAll_spec hW b0 _ r b' hwf0 h
+      exact ⟨hwf', hcap'.trans hcap0, hsplit ▸ sp0.append sp⟩
+    | err e =>
+      simp only [andThen, id, Prod.mk.injEq] at h
+      obtain ⟨rfl, rfl⟩ := h
+      exact ⟨hwf0, hcap0, hsplit ▸ sp0.errLeft (buf.drop (idx + 1))⟩
+    | panic => exact absurd rfl sp0.safe.1
+    | hang => exact absurd rfl sp0.safe.2
+
 end BufWriterProofs
+
+/-- a `LineWriter` is observed through its `BufWriter` -/
+def LineWriter.view {ω : Type} (V : View ω) : View (LineWriter ω) where
+  snap := fun lw => (BufWriter.view V).snap lw.inner
+  wf := fun lw => (BufWriter.view V).wf lw.inner
+
+/-- **`LineWriter<W>` keeps the `Write` contract if `W` does** (any capacity) -/
+theorem LineWriter.spec {ω : Type} {W : Writer ω} {V : View ω} (hW : Spec W V) :
+    Spec (LineWriter.writer W) (LineWriter.view V) where
+  fdPrefix := fun lw hwf => (BufWriter.spec hW).fdPrefix lw.inner hwf
+  budget := fun lw => hW.budget lw.inner.inner
+  write := fun lw buf r lw' hwf h => by
+    simp only [LineWriter.writer, LineWriter.write, mapState] at h
+    generalize hp : Shim.write W lw.inner buf = p at h
+    obtain ⟨r1, b1⟩ := p
+    simp only [Prod.mk.injEq] at h
+    obtain ⟨rfl, rfl⟩ := h
+    have := Shim.write_spec hW lw.inner buf r1 b1 hwf hp
+    exact ⟨this.1, this.2.2⟩
+  writeAll := fun lw buf r lw' hwf h => by
+    simp only [LineWriter.writer, LineWriter.writeAll, mapState] at h
+    generalize hp : Shim.writeAll W lw.inner buf = p at h
+    obtain ⟨r1, b1⟩ := p
+    simp only [Prod.mk.injEq] at h
+    obtain ⟨rfl, rfl⟩ := h
+    have := Shim.writeAll_spec hW lw.inner buf r1 b1 hwf hp
+    exact ⟨this.1, this.2.2⟩
+  flush := fun lw r lw' hwf h => by
+    simp only [LineWriter.writer, LineWriter.flush, mapState] at h
+    generalize hp : BufWriter.flush W lw.inner = p at h
+    obtain ⟨r1, b1⟩ := p
+    simp only [Prod.mk.injEq] at h
+    obtain ⟨rfl, rfl⟩ := h
+    have := BufWriter.flush_spec hW lw.inner r1 b1 hwf hp
+    exact ⟨this.1, this.2.2⟩
+
+/-! ## 4. the stdout of `main` -/
+
+def stdoutView : View Stdout := BufWriter.view (LineWriter.view Sink.view)
+
+theorem lineWriter_spec : Spec lineWriter (LineWriter.view Sink.view) := LineWriter.spec Sink.spec
+
+/-- `BufWriter<StdoutLock>` keeps the `Write` contract, whatever the two capacities and whatever the OS does -/
+theorem stdout_spec : Spec stdoutWriter stdoutView := BufWriter.spec lineWriter_spec
+
+/-! ## 5. sessions: `write_all(x₁)?; …; write_all(xₖ)?; flush()?` over ANY writer that keeps the contract -/
+
+section Sessions
+variable {ω : Type} {W : Writer ω} {V : View ω}
+
+theorem writeAlls_spec (hW : Spec W V) : ∀ (xs : List Bytes) (w : ω) (r : IoRes Unit) (w' : ω), V.wf w →
+    writeAlls W xs w = (r, w') → V.wf w' ∧ WriteAllSpec (V.snap w) (V.snap w') xs.flatten r
+  | [], w, r, w', hwf, h => by
+    simp only [writeAlls, Prod.mk.injEq] at h
+    obtain ⟨rfl, rfl⟩ := h
+    exact ⟨hwf, ⟨0, by simp, by simpa using Adv.refl _, by simp, fun _ e he => by cases he⟩, by simp, by simp,
+      fun _ => rfl⟩
+  | x :: xs, w, r, w', hwf, h => by
+    unfold writeAlls at h
+    generalize hp : W.writeAll w x = p at h
+    obtain ⟨r0, w0⟩ := p
+    obtain ⟨hwf0, sp0⟩ := hW.writeAll w x r0 w0 hwf hp
+    cases r0 with
+    | ok u =>
+      simp only [andThen] at h
+      obtain ⟨hwf', sp⟩ := writeAlls_spec hW xs w0 r w' hwf0 h
+      exact ⟨hwf', by simpa using sp0.append sp⟩
+    | err e =>
+      simp only [andThen, id, Prod.mk.injEq] at h
+      obtain ⟨rfl, rfl⟩ := h
+      exact ⟨hwf0, by simpa using sp0.errLeft xs.flatten⟩
+    | panic => exact absurd rfl sp0.safe.1
+    | hang => exact absurd rfl sp0.safe.2
+
+/-- what a whole session guarantees -/
+structure SessionSpec (s s' : Snap) (out : Bytes) (r : IoRes Unit) : Prop where
+  adv : ∃ k, Adv s s' (out.take k)
+  safe : r ≠ .panic ∧ r ≠ .hang
+  clean : s.faultFree → r = .ok ()
+  done : r = .ok () → s'.all = s.all ++ out ∧ s'.fd = s'.all
+  sticky : s.sticky → ∀ e, r = .err e → s'.dead = true ∧ s'.fd.length < s.all.length + out.length
+
+theorem session_spec (hW : Spec W V) (xs : List Bytes) (w : ω) (r : IoRes Unit) (w' : ω) (hwf : V.wf w)
+    (h : session W xs w = (r, w')) : V.wf w' ∧ SessionSpec (V.snap w) (V.snap w') xs.flatten r := by
+  unfold session at h
+  generalize hp : writeAlls W xs w = p at h
+  obtain ⟨r0, w0⟩ := p
+  obtain ⟨hwf0, sp0⟩ := writeAlls_spec hW xs w r0 w0 hwf hp
+  obtain ⟨k, hk, ha, hok, hst⟩ := sp0.adv
+  cases r0 with
+  | ok u =>
+    simp only [andThen] at h
+    obtain ⟨hwf', sp⟩ := hW.flush w0 r w' hwf0 h
+    have hk' := hok rfl
+    subst hk'
+    have hadv := (ha.trans sp.adv).cast (List.append_nil _)
+    refine ⟨hwf', ⟨_, hadv⟩, sp.safe, fun hf => sp.clean (ha.faultFree hf), fun hr => ⟨?_, sp.done hr⟩,
+      fun hs e he => ?_⟩
+    · have := hadv.all
+      rwa [List.take_length] at this
+    · obtain ⟨a, b⟩ := sp.sticky (ha.sticky hs) e he
+      refine ⟨a, ?_⟩
+      have := congrArg List.length hadv.all
+      simp only [List.length_append, List.take_length] at this
+      omega
+  | err e =>
+    simp only [andThen, id, Prod.mk.injEq] at h
+    obtain ⟨rfl, rfl⟩ := h
+    refine ⟨hwf0, ⟨_, ha⟩, by simp, fun hf => (by have := sp0.clean hf; cases this), by simp, fun hs e' he' => ?_⟩
+    obtain ⟨a, b⟩ := hst hs e' he'
+    refine ⟨a, ?_⟩
+    have h1 := congrArg List.length ha.all
+    have h2 := (hW.fdPrefix w0 hwf0).length_le
+    simp only [List.length_append, List.length_take] at h1
+    omega
+  | panic => exact absurd rfl sp0.safe.1
+  | hang => exact absurd rfl sp0.safe.2
+
+/-- `Drop for BufWriter`: whatever happens, what is below still holds a prefix of what was accepted, the
+    descriptor only grows; nothing moves once the sink is dead; everything arrives when the OS does not fail -/
+theorem BufWriter.drop_spec (hW : Spec W V) (bw : BufWriter ω) (hwf : (BufWriter.view V).wf bw) :
+    V.wf (BufWriter.drop W bw) ∧
+    (V.snap (BufWriter.drop W bw)).all <+: ((BufWriter.view V).snap bw).all ∧
+    ((BufWriter.view V).snap bw).fd <+: (V.snap (BufWriter.drop W bw)).fd ∧
+    (((BufWriter.view V).snap bw).dead = true →
+      (V.snap (BufWriter.drop W bw)).fd = ((BufWriter.view V).snap bw).fd ∧
+      (V.snap (BufWriter.drop W bw)).dead = true) ∧
+    (((BufWriter.view V).snap bw).faultFree →
+      (V.snap (BufWriter.drop W bw)).all = ((BufWriter.view V).snap bw).all ∧
+      (V.snap (BufWriter.drop W bw)).faultFree) := by
+  have fs := flushBuf_spec hW bw (BufWriter.flushBuf W bw).1 (BufWriter.flushBuf W bw).2 hwf rfl
+  have hall := fs.adv.all
+  simp only [List.append_nil] at hall
+  refine ⟨fs.wf.2, ?_, fs.adv.fd, fun hd => ?_, fun hf => ⟨?_, ?_⟩⟩
+  · rw [← hall]
+    exact List.prefix_append _ _
+  · obtain ⟨a, b⟩ := fs.adv.dead hd
+    exact ⟨b, a⟩
+  · have := fs.done (fs.clean hf)
+    rw [← hall]
+    simp [BufWriter.view, BufWriter.drop, this]
+  · exact fs.adv.faultFree hf
+
+end Sessions
+
+/-! ## 6. `main`: W1, W2 -/
+
+theorem Stdout.new_wf (c lc : Nat) (oracle : List WAns) : stdoutView.wf (Stdout.new c lc oracle) := by
+  simp [stdoutView, BufWriter.view, LineWriter.view, Sink.view, Stdout.new, BufWriter.withCapacity,
+    LineWriter.withCapacity]
+
+theorem Stdout.new_snap (c lc : Nat) (oracle : List WAns) :
+    stdoutView.snap (Stdout.new c lc oracle) = ⟨[], [], oracle, false⟩ := by
+  simp [stdoutView, BufWriter.view, LineWriter.view, Sink.view, Stdout.new, BufWriter.withCapacity,
+    LineWriter.withCapacity, Sink.new]
+
+/-- the two drops at the end of the process, from any state of the `BufWriter<StdoutLock>` -/
+def finalSink (stdout : Stdout) : Sink := LineWriter.drop Sink.writer (BufWriter.drop lineWriter stdout)
+
+theorem finalSink_spec (st : Stdout) (hwf : stdoutView.wf st) :
+    (finalSink st).fd <+: (stdoutView.snap st).all ∧
+    (stdoutView.snap st).fd <+: (finalSink st).fd ∧
+    ((stdoutView.snap st).dead = true → (finalSink st).fd = (stdoutView.snap st).fd) ∧
+    ((stdoutView.snap st).faultFree → (finalSink st).fd = (stdoutView.snap st).all) := by
+  obtain ⟨hwf1, hall1, hfd1, hdead1, hcl1⟩ := BufWriter.drop_spec lineWriter_spec st hwf
+  obtain ⟨-, hall2, hfd2, hdead2, hcl2⟩ := BufWriter.drop_spec Sink.spec (BufWriter.drop lineWriter st).inner hwf1
+  refine ⟨hall2.trans hall1, hfd1.trans hfd2, fun hd => ?_, fun hf => ?_⟩
+  · obtain ⟨a, b⟩ := hdead1 hd
+    obtain ⟨c, -⟩ := hdead2 b
+    exact c.trans a
+  · obtain ⟨a, b⟩ := hcl1 hf
+    obtain ⟨c, -⟩ := hcl2 b
+    exact c.trans a
+
+theorem mainWrites_eq (c lc : Nat) (oracle : List WAns) (xs : List Bytes) :
+    mainWrites c lc oracle xs =
+      (IoRes.status (session stdoutWriter xs (Stdout.new c lc oracle)).1,
+       finalSink (session stdoutWriter xs (Stdout.new c lc oracle)).2) := rfl
+
+theorem prefix_eq_of_length_le {a b : Bytes} (h : a <+: b) (hl : b.length ≤ a.length) : a = b :=
+  h.eq_of_length_le hl
+
+/-- everything about `main`'s stdout in one statement, for EVERY behaviour of the OS, all capacities -/
+theorem mainWrites_spec (c lc : Nat) (oracle : List WAns) (xs : List Bytes) :
+    (mainWrites c lc oracle xs).2.fd <+: xs.flatten ∧
+    ((mainWrites c lc oracle xs).1 = .ok ∨ (mainWrites c lc oracle xs).1 = .fail) ∧
+    ((mainWrites c lc oracle xs).1 = .ok → (mainWrites c lc oracle xs).2.fd = xs.flatten) ∧
+    ((∀ a ∈ oracle, a.benign = true) → (mainWrites c lc oracle xs).1 = .ok) ∧
+    ((∀ a ∈ oracle, a.hard = true) → (mainWrites c lc oracle xs).1 ≠ .ok →
+      (mainWrites c lc oracle xs).2.fd.length < xs.flatten.length) := by
+  rw [mainWrites_eq]
+  generalize hp : session stdoutWriter xs (Stdout.new c lc oracle) = p
+  obtain ⟨r, st⟩ := p
+  obtain ⟨hwf, sp⟩ := session_spec stdout_spec xs _ r st (Stdout.new_wf c lc oracle) hp
+  rw [Stdout.new_snap] at sp
+  obtain ⟨k, ha⟩ := sp.adv
+  obtain ⟨h1, h2, h3, -⟩ := finalSink_spec st hwf
+  have hall : (stdoutView.snap st).all = xs.flatten.take k := by simpa using ha.all
+  have hpre : (finalSink st).fd <+: xs.flatten := by
+    rw [hall] at h1
+    exact h1.trans (List.take_prefix _ _)
+  refine ⟨hpre, ?_, fun hr => ?_, fun hb => ?_, fun hs hr => ?_⟩
+  · cases r with
+    | ok u => exact .inl rfl
+    | err e => exact .inr rfl
+    | panic => exact absurd rfl sp.safe.1
+    | hang => exact absurd rfl sp.safe.2
+  · cases r with
+    | ok u =>
+      obtain ⟨a, b⟩ := sp.done rfl
+      simp only [List.nil_append] at a
+      refine prefix_eq_of_length_le hpre ?_
+      have := h2.length_le
+      rw [b, a] at this
+      exact this
+    | _ => cases hr
+  · have := sp.clean ⟨rfl, hb⟩
+    subst this
+    rfl
+  · cases r with
+    | ok u => exact absurd rfl hr
+    | err e =>
+      obtain ⟨a, b⟩ := sp.sticky hs e rfl
+      rw [h3 a]
+      simpa using b
+    | panic => exact absurd rfl sp.safe.1
+    | hang => exact absurd rfl sp.safe.2
+
+/-- **W1** — a fault-free OS (any pattern of short writes and `EINTR`): every `write_all` and the `flush` return
+    `Ok`, and fd 1 holds exactly `x₁ ++ … ++ xₖ` — nothing stays in the `BufWriter` or the `LineWriter` -/
+theorem W1_fault_free (c lc : Nat) (oracle : List WAns) (xs : List Bytes)
+    (h : ∀ a ∈ oracle, a.benign = true) :
+    mainWrites c lc oracle xs = (.ok, ⟨xs.flatten, (mainWrites c lc oracle xs).2.oracle, false⟩) := by
+  obtain ⟨-, -, h3, h4, -⟩ := mainWrites_spec c lc oracle xs
+  have hok := h4 h
+  have hfd := h3 hok
+  have hdead : (mainWrites c lc oracle xs).2.dead = false := by
+    rw [mainWrites_eq]
+    generalize hp : session stdoutWriter xs (Stdout.new c lc oracle) = p
+    obtain ⟨r, st⟩ := p
+    obtain ⟨hwf, sp⟩ := session_spec stdout_spec xs _ r st (Stdout.new_wf c lc oracle) hp
+    rw [Stdout.new_snap] at sp
+    obtain ⟨k, ha⟩ := sp.adv
+    have hf : (stdoutView.snap st).faultFree := ha.faultFree ⟨rfl, h⟩
+    obtain ⟨hwf1, -, -, -, hcl1⟩ := BufWriter.drop_spec lineWriter_spec st hwf
+    obtain ⟨-, -, -, -, hcl2⟩ := BufWriter.drop_spec Sink.spec (BufWriter.drop lineWriter st).inner hwf1
+    exact (hcl2 (hcl1 hf).2).2.1
+  generalize mainWrites c lc oracle xs = m at *
+  obtain ⟨st, ⟨fd, o, d⟩⟩ := m
+  simp_all
+
+/-- **W1, before the drops** — right after `flush()` returned (fault-free OS): `Ok`, BOTH buffers are empty and
+    fd 1 holds `x₁ ++ … ++ xₖ` -/
+theorem W1_session (c lc : Nat) (oracle : List WAns) (xs : List Bytes) (h : ∀ a ∈ oracle, a.benign = true) :
+    (session stdoutWriter xs (Stdout.new c lc oracle)).1 = .ok () ∧
+    (session stdoutWriter xs (Stdout.new c lc oracle)).2.buf = [] ∧
+    (session stdoutWriter xs (Stdout.new c lc oracle)).2.inner.inner.buf = [] ∧
+    (session stdoutWriter xs (Stdout.new c lc oracle)).2.fd = xs.flatten := by
+  generalize hp : session stdoutWriter xs (Stdout.new c lc oracle) = p
+  obtain ⟨r, st⟩ := p
+  obtain ⟨hwf, sp⟩ := session_spec stdout_spec xs _ r st (Stdout.new_wf c lc oracle) hp
+  rw [Stdout.new_snap] at sp
+  have hr := sp.clean ⟨rfl, h⟩
+  obtain ⟨a, b⟩ := sp.done hr
+  simp only [stdoutView, BufWriter.view, LineWriter.view, Sink.view, List.nil_append] at a b
+  have hlen := congrArg List.length b
+  simp only [List.length_append] at hlen
+  have h1 : st.buf = [] := List.eq_nil_of_length_eq_zero (by omega)
+  have h2 : st.inner.inner.buf = [] := List.eq_nil_of_length_eq_zero (by omega)
+  refine ⟨hr, h1, h2, ?_⟩
+  simp only [h1, h2, List.append_nil] at a
+  exact a
+
+/-- the retry loops (`flush_buf`, the default `write_all`) never run out of the fuel `budget + len + 1`, and no
+    checked operation fails — for every state `main`'s stdout can be in, every slice, every OS -/
+theorem stdout_never_hangs_or_panics (st : Stdout) (buf : Bytes) (hwf : stdoutView.wf st) :
+    ((stdoutWriter.write st buf).1 ≠ .panic ∧ (stdoutWriter.write st buf).1 ≠ .hang) ∧
+    ((stdoutWriter.writeAll st buf).1 ≠ .panic ∧ (stdoutWriter.writeAll st buf).1 ≠ .hang) ∧
+    ((stdoutWriter.flush st).1 ≠ .panic ∧ (stdoutWriter.flush st).1 ≠ .hang) :=
+  ⟨(stdout_spec.write st buf _ _ hwf rfl).2.safe, (stdout_spec.writeAll st buf _ _ hwf rfl).2.safe,
+   (stdout_spec.flush st _ _ hwf rfl).2.safe⟩
+
+/-- **W2** — EVERY OS (short writes, `EINTR`, `Ok(0)`, transient and sticky errors at any point): what reached
+    fd 1 is a PREFIX of `x₁ ++ … ++ xₖ`; the process ends with status 0 or 1 (no panic, no hang); and if anything
+    is missing the status is 1 — some `write_all` or the final `flush` returned `Err` (no silent loss) -/
+theorem W2_prefix_and_no_silent_loss (c lc : Nat) (oracle : List WAns) (xs : List Bytes) :
+    (mainWrites c lc oracle xs).2.fd <+: xs.flatten ∧
+    ((mainWrites c lc oracle xs).2.fd ≠ xs.flatten → (mainWrites c lc oracle xs).1 = .fail) := by
+  obtain ⟨h1, h2, h3, -, -⟩ := mainWrites_spec c lc oracle xs
+  refine ⟨h1, fun hne => ?_⟩
+  rcases h2 with h | h
+  · exact absurd (h3 h) hne
+  · exact h
+
+/-- **W2, the connection to `deliver`** (`Tuc.Model.Args`; `deliver_prefix`, `deliver_cut_fails`,
+    `success_complete` of `Tuc.Props.C14`): for an engine whose run is `⟨out, ok⟩`, what the literal stack leaves
+    on fd 1 is `deliver ⟨out, ok⟩ limit` for some `limit`; status 0 of the process implies status `ok` of
+    `deliver`, and when every error of the OS is sticky the two statuses are EQUAL -/
+theorem W2_deliver (c lc : Nat) (oracle : List WAns) (xs : List Bytes) :
+    ∃ limit : Option Nat,
+      (mainWrites c lc oracle xs).2.fd = (deliver ⟨xs.flatten, .ok⟩ limit).out ∧
+      ((deliver ⟨xs.flatten, .ok⟩ limit).status = .ok → (mainWrites c lc oracle xs).1 = .ok ∨
+        (mainWrites c lc oracle xs).1 = .fail) ∧
+      ((mainWrites c lc oracle xs).1 = .ok → (deliver ⟨xs.flatten, .ok⟩ limit).status = .ok) ∧
+      ((∀ a ∈ oracle, a.hard = true) →
+        (mainWrites c lc oracle xs).1 = (deliver ⟨xs.flatten, .ok⟩ limit).status) := by
+  obtain ⟨h1, h2, h3, -, h5⟩ := mainWrites_spec c lc oracle xs
+  by_cases hlt : (mainWrites c lc oracle xs).2.fd.length < xs.flatten.length
+  · refine ⟨some (mainWrites c lc oracle xs).2.fd.length, ?_, fun _ => h2, fun hok => ?_, fun _ => ?_⟩
+    · simp only [deliver, Nat.not_le.mpr hlt, if_false]
+      exact List.prefix_iff_eq_take.mp h1
+    · have := h3 hok
+      rw [this] at hlt
+      omega
+    · simp only [deliver, Nat.not_le.mpr hlt, if_false, if_true]
+      rcases h2 with h | h
+      · have := h3 h
+        rw [this] at hlt
+        omega
+      · exact h
+  · have heq : (mainWrites c lc oracle xs).2.fd = xs.flatten := prefix_eq_of_length_le h1 (by omega)
+    refine ⟨none, by simp [deliver, heq], fun _ => h2, fun _ => by simp [deliver], fun hs => ?_⟩
+    simp only [deliver]
+    rcases h2 with h | h
+    · exact h
+    · exact absurd (h5 hs (by rw [h]; simp)) hlt
+
+theorem mainWritesThenErr_eq (c lc : Nat) (oracle : List WAns) (xs : List Bytes) :
+    mainWritesThenErr c lc oracle xs =
+      ((match IoRes.status (writeAlls stdoutWriter xs (Stdout.new c lc oracle)).1 with | .ok => .fail | st => st),
+       finalSink (writeAlls stdoutWriter xs (Stdout.new c lc oracle)).2) := rfl
+
+/-- the engine-error path (`Err` after having written `xs`; no `flush()`, only the drops): status 1, a prefix on
+    fd 1 — and ALL of `xs` when the OS does not fail (the output before a failing record is not lost) -/
+theorem mainWritesThenErr_spec (c lc : Nat) (oracle : List WAns) (xs : List Bytes) :
+    (mainWritesThenErr c lc oracle xs).1 = .fail ∧
+    (mainWritesThenErr c lc oracle xs).2.fd <+: xs.flatten ∧
+    ((∀ a ∈ oracle, a.benign = true) → (mainWritesThenErr c lc oracle xs).2.fd = xs.flatten) := by
+  rw [mainWritesThenErr_eq]
+  generalize hp : writeAlls stdoutWriter xs (Stdout.new c lc oracle) = p
+  obtain ⟨r, st⟩ := p
+  obtain ⟨hwf, sp⟩ := writeAlls_spec stdout_spec xs _ r st (Stdout.new_wf c lc oracle) hp
+  rw [Stdout.new_snap] at sp
+  obtain ⟨k, hk, ha, hok, -⟩ := sp.adv
+  obtain ⟨h1, -, -, h4⟩ := finalSink_spec st hwf
+  have hall : (stdoutView.snap st).all = xs.flatten.take k := by simpa using ha.all
+  refine ⟨?_, ?_, fun hb => ?_⟩
+  · cases r with
+    | ok u => rfl
+    | err e => rfl
+    | panic => exact absurd rfl sp.safe.1
+    | hang => exact absurd rfl sp.safe.2
+  · rw [hall] at h1
+    exact h1.trans (List.take_prefix _ _)
+  · have hf : Snap.faultFree ⟨[], [], oracle, false⟩ := ⟨rfl, hb⟩
+    have hr := sp.clean hf
+    have := hok hr
+    subst this
+    show (finalSink st).fd = xs.flatten
+    rw [h4 (ha.faultFree hf), hall, List.take_length]
+
+/-! ## 7. the witnesses: a skipped flush (W1), `write` for `write_all` (W3) -/
+
+theorem memrchr_none (c : UInt8) : ∀ (t : Bytes), c ∉ t → memrchr c t = none
+  | [], _ => rfl
+  | x :: t, h => by
+    have h1 : c ∉ t := fun hm => h (List.mem_cons_of_mem _ hm)
+    have h2 : ¬ x = c := fun he => h (by simp [he])
+    simp [memrchr, memrchr_none c t h1, h2]
+
+/-- `memrchr` finds the LAST occurrence -/
+theorem memrchr_last (c : UInt8) (t : Bytes) (ht : c ∉ t) : ∀ (pre : Bytes), memrchr c (pre ++ c :: t) = some pre.length
+  | [] => by simp [memrchr, memrchr_none c t ht]
+  | x :: pre => by simp [memrchr, memrchr_last c t ht pre]
+
+section Ideal
+variable {ω : Type}
+
+theorem flushBuf_nil (W : Writer ω) (bw : BufWriter ω) (h : bw.buf = []) : BufWriter.flushBuf W bw = (.ok (), bw) := by
+  obtain ⟨b, c, i⟩ := bw
+  simp only at h
+  subst h
+  unfold BufWriter.flushBuf
+  rw [show W.budget i + ([] : Bytes).length + 1 = (W.budget i + ([] : Bytes).length).succ from rfl]
+  unfold BufWriter.flushBufLoop
+  simp
+
+theorem prelude_nil (W : Writer ω) (bw : BufWriter ω) (buf : Bytes) (h : bw.buf = []) :
+    (if buf.length > bw.spareCapacity then BufWriter.flushBuf W bw else (.ok (), bw)) = (.ok (), bw) := by
+  split
+  · exact flushBuf_nil W bw h
+  · rfl
+
+/-- bufwriter.rs:413-417: a slice of at least `capacity` bytes BYPASSES an empty `BufWriter` -/
+theorem BufWriter.writeAll_bypass (W : Writer ω) (bw : BufWriter ω) (buf : Bytes) (h : bw.buf = [])
+    (hbig : bw.cap ≤ buf.length) :
+    BufWriter.writeAll W bw buf = mapState (fun inner => { bw with inner := inner }) (W.writeAll bw.inner buf) := by
+  have hs : bw.spareCapacity = bw.cap := by simp [BufWriter.spareCapacity, h]
+  unfold BufWriter.writeAll BufWriter.writeAllCold
+  rw [prelude_nil W bw buf h, hs, if_neg (Nat.not_lt.mpr hbig)]
+  simp only [andThen, ge_iff_le, hbig, if_true]
+
+/-- bufwriter.rs:371-375: the same for `write` -/
+theorem BufWriter.write_bypass (W : Writer ω) (bw : BufWriter ω) (buf : Bytes) (h : bw.buf = [])
+    (hbig : bw.cap ≤ buf.length) :
+    BufWriter.write W bw buf = mapState (fun inner => { bw with inner := inner }) (W.write bw.inner buf) := by
+  have hs : bw.spareCapacity = bw.cap := by simp [BufWriter.spareCapacity, h]
+  unfold BufWriter.write BufWriter.writeCold
+  rw [prelude_nil W bw buf h, hs, if_neg (Nat.not_lt.mpr hbig)]
+  simp only [andThen, ge_iff_le, hbig, if_true]
+
+/-- the next answer of the OS takes the whole slice -/
+theorem Sink.write_whole (s : Sink) (n : Nat) (o : List WAns) (buf : Bytes) (hd : s.dead = false)
+    (ho : s.oracle = .accept n :: o) (hn : buf.length ≤ n + 1) :
+    s.write buf = (.ok buf.length, ⟨s.fd ++ buf, o, false⟩) := by
+  simp [Sink.write, hd, ho, Nat.min_eq_right hn, List.take_of_length_le hn]
+
+theorem Sink.writeAll_whole (s : Sink) (n : Nat) (o : List WAns) (buf : Bytes) (hd : s.dead = false)
+    (ho : s.oracle = .accept n :: o) (hn : buf.length ≤ n + 1) (hb : buf ≠ []) :
+    Sink.writer.writeAll s buf = (.ok (), ⟨s.fd ++ buf, o, false⟩) := by
+  have hbe : buf.isEmpty = false := by cases buf <;> simp_all
+  have hlen : buf.length ≠ 0 := by cases buf <;> simp_all
+  show defaultWriteAll Sink.write (s.oracle.length + buf.length + 1) s buf = _
+  rw [ho, show (WAns.accept n :: o).length + buf.length + 1 = (o.length + buf.length).succ.succ by simp; omega]
+  unfold defaultWriteAll
+  simp only [hbe, Bool.false_eq_true, if_false, Sink.write_whole s n o buf hd ho hn, hlen,
+    sliceFrom_some (Nat.le_refl _), List.drop_length]
+  unfold defaultWriteAll
+  simp
+
+end Ideal
+
+/-- The state the seeded defect "flush only if the `BufWriter` is not empty" relies on never occurring: ONE
+    `write_all` of at least `capacity` bytes whose last line (`tail`, without newline, shorter than the
+    `LineWriter`'s capacity) is unterminated.  The `BufWriter` is bypassed and stays EMPTY, the lines go to the
+    descriptor, the tail sits in the `LineWriter`. (`accept n` with `n + 1 ≥ len`: the OS takes the lines at once.) -/
+theorem big_write_leaves_tail_in_LineWriter (c lc n : Nat) (o : List WAns) (pre tl : Bytes)
+    (hnl : (0x0A : UInt8) ∉ tl) (htl : tl.length < lc) (hbig : c ≤ (pre ++ 0x0A :: tl).length)
+    (hn : pre.length + 1 ≤ n + 1) :
+    writeAlls stdoutWriter [pre ++ 0x0A :: tl] (Stdout.new c lc (.accept n :: o)) =
+      (.ok (), ⟨[], c, ⟨⟨tl, lc, ⟨pre ++ [0x0A], o, false⟩⟩⟩⟩) := by
+  have hsplit1 : (pre ++ 0x0A :: tl).take (pre.length + 1) = pre ++ [0x0A] := by
+    rw [show pre ++ 0x0A :: tl = (pre ++ [0x0A]) ++ tl by simp]
+    rw [List.take_left' (by simp)]
+  have hsplit2 : (pre ++ 0x0A :: tl).drop (pre.length + 1) = tl := by
+    rw [show pre ++ 0x0A :: tl = (pre ++ [0x0A]) ++ tl by simp]
+    rw [List.drop_left' (by simp)]
+  have hle : pre.length + 1 ≤ (pre ++ 0x0A :: tl).length := by simp
+  have hinner : lineWriter.writeAll (LineWriter.withCapacity lc (Sink.new (.accept n :: o))) (pre ++ 0x0A :: tl) =
+      (.ok (), ⟨⟨tl, lc, ⟨pre ++ [0x0A], o, false⟩⟩⟩) := by
+    simp only [lineWriter, LineWriter.writer, LineWriter.writeAll, LineWriter.withCapacity,
+      BufWriter.withCapacity, Shim.writeAll, memrchr_last _ tl hnl pre, sliceTo_some hle, sliceFrom_some hle,
+      hsplit1, hsplit2, List.isEmpty_nil, if_true]
+    rw [Sink.writeAll_whole (Sink.new (.accept n :: o)) n o (pre ++ [0x0A]) rfl rfl (by simpa using hn) (by simp)]
+    simp [mapState, andThen, BufWriter.writeAll, BufWriter.spareCapacity, htl, BufWriter.writeToBufferUnchecked,
+      Nat.le_of_lt htl, Sink.new]
+  show andThen (BufWriter.writeAll lineWriter (Stdout.new c lc (.accept n :: o)) (pre ++ 0x0A :: tl))
+    (fun _ w => writeAlls stdoutWriter [] w) id = _
+  rw [BufWriter.writeAll_bypass _ _ _ rfl hbig]
+  simp only [Stdout.new, BufWriter.withCapacity, hinner, mapState, andThen, writeAlls]
+
+/-- flushing a non-empty buffer into a sink whose next answer is a sticky error: nothing arrives, the sink is dead -/
+theorem flushBuf_dies (bw : BufWriter Sink) (o : List WAns) (hd : bw.inner.dead = false)
+    (ho : bw.inner.oracle = .err true :: o) (hb : bw.buf ≠ []) :
+    (BufWriter.flushBuf Sink.writer bw).2.inner = ⟨bw.inner.fd, o, true⟩ := by
+  have hlen : ¬ 0 ≥ bw.buf.length := by
+    have := List.length_pos_iff.mpr hb
+    omega
+  unfold BufWriter.flushBuf
+  rw [show Sink.writer.budget bw.inner + bw.buf.length + 1 = (Sink.writer.budget bw.inner + bw.buf.length).succ from rfl]
+  unfold BufWriter.flushBufLoop
+  simp [hlen, sliceFrom, Sink.writer, Sink.write, hd, ho]
+
+/-- **W1, the witness** — with "flush only if the `BufWriter` is not empty" in place of tuc.rs:303, an OS that
+    takes the lines and then fails for good: the process exits 0 although the last (unterminated) line never
+    reached fd 1.  (The residue is written by `std::rt::cleanup`, whose errors are ignored.) -/
+theorem skipped_flush_silent_loss (c lc n : Nat) (pre tl : Bytes)
+    (hnl : (0x0A : UInt8) ∉ tl) (htl : tl.length < lc) (hne : tl ≠ []) (hbig : c ≤ (pre ++ 0x0A :: tl).length)
+    (hn : pre.length + 1 ≤ n + 1) :
+    mainWritesSkippingEmpty c lc [.accept n, .err true] [pre ++ 0x0A :: tl] = (.ok, ⟨pre ++ [0x0A], [], true⟩) := by
+  have h1 := big_write_leaves_tail_in_LineWriter c lc n [.err true] pre tl hnl htl hbig hn
+  show (IoRes.status (sessionSkippingEmpty lineWriter [pre ++ 0x0A :: tl]
+      (Stdout.new c lc [.accept n, .err true])).1,
+    LineWriter.drop Sink.writer (BufWriter.drop lineWriter (sessionSkippingEmpty lineWriter [pre ++ 0x0A :: tl]
+      (Stdout.new c lc [.accept n, .err true])).2)) = _
+  unfold sessionSkippingEmpty
+  rw [show BufWriter.writer lineWriter = stdoutWriter from rfl, h1]
+  simp only [andThen, List.isEmpty_nil, if_true, IoRes.status, BufWriter.drop, flushBuf_nil, LineWriter.drop]
+  rw [flushBuf_dies _ [] rfl rfl hne]
+
+/-- the real `main` on the same run reports the loss -/
+theorem real_main_reports (c lc n : Nat) (pre tl : Bytes)
+    (hnl : (0x0A : UInt8) ∉ tl) (htl : tl.length < lc) (hne : tl ≠ []) (hbig : c ≤ (pre ++ 0x0A :: tl).length)
+    (hn : pre.length + 1 ≤ n + 1) :
+    mainWrites c lc [.accept n, .err true] [pre ++ 0x0A :: tl] = (.fail, ⟨pre ++ [0x0A], [], true⟩) := by
+  have h1 := big_write_leaves_tail_in_LineWriter c lc n [.err true] pre tl hnl htl hbig hn
+  show (IoRes.status (session stdoutWriter [pre ++ 0x0A :: tl] (Stdout.new c lc [.accept n, .err true])).1,
+    LineWriter.drop Sink.writer (BufWriter.drop lineWriter (session stdoutWriter [pre ++ 0x0A :: tl]
+      (Stdout.new c lc [.accept n, .err true])).2)) = _
+  unfold session
+  rw [h1]
+  have hlen : ¬ 0 ≥ tl.length := by
+    have := List.length_pos_iff.mpr hne
+    omega
+  have hfl : BufWriter.flushBuf Sink.writer ⟨tl, lc, ⟨pre ++ [0x0A], [.err true], false⟩⟩ =
+      (.err .other, ⟨tl, lc, ⟨pre ++ [0x0A], [], true⟩⟩) := by
+    unfold BufWriter.flushBuf
+    rw [show Sink.writer.budget (⟨pre ++ [0x0A], [.err true], false⟩ : Sink) + tl.length + 1 =
+      (Sink.writer.budget (⟨pre ++ [0x0A], [.err true], false⟩ : Sink) + tl.length).succ from rfl]
+    unfold BufWriter.flushBufLoop
+    simp [hlen, sliceFrom, Sink.writer, Sink.write]
+  have hfl2 : BufWriter.flushBuf Sink.writer ⟨tl, lc, ⟨pre ++ [0x0A], [], true⟩⟩ =
+      (.err .other, ⟨tl, lc, ⟨pre ++ [0x0A], [], true⟩⟩) := by
+    unfold BufWriter.flushBuf
+    rw [show Sink.writer.budget (⟨pre ++ [0x0A], [], true⟩ : Sink) + tl.length + 1 =
+      (Sink.writer.budget (⟨pre ++ [0x0A], [], true⟩ : Sink) + tl.length).succ from rfl]
+    unfold BufWriter.flushBufLoop
+    simp [hlen, sliceFrom, Sink.writer, Sink.write]
+  simp only [andThen, stdoutWriter, BufWriter.writer, BufWriter.flush, flushBuf_nil, lineWriter, LineWriter.writer,
+    LineWriter.flush, hfl, hfl2, mapState, id, IoRes.status, BufWriter.drop, LineWriter.drop]
+
+/-- `main`'s capacities: 65535 × `a`, a newline, one more byte — 65537 bytes in one `write_all` -/
+example : mainWritesSkippingEmpty 65536 1024 [.accept 70000, .err true] [List.replicate 65535 0x61 ++ 0x0A :: [0x62]] =
+      (.ok, ⟨List.replicate 65535 0x61 ++ [0x0A], [], true⟩) ∧
+    mainWrites 65536 1024 [.accept 70000, .err true] [List.replicate 65535 0x61 ++ 0x0A :: [0x62]] =
+      (.fail, ⟨List.replicate 65535 0x61 ++ [0x0A], [], true⟩) :=
+  ⟨skipped_flush_silent_loss 65536 1024 70000 _ [0x62] (by decide) (by decide) (by decide)
+      (by simp only [List.length_append, List.length_replicate, List.length_cons, List.length_nil]; omega)
+      (by simp only [List.length_replicate]; omega),
+   real_main_reports 65536 1024 70000 _ [0x62] (by decide) (by decide) (by decide)
+      (by simp only [List.length_append, List.length_replicate, List.length_cons, List.length_nil]; omega)
+      (by simp only [List.length_replicate]; omega)⟩
+
+/-- why the defect hides: as long as the OS does not fail, the drops deliver what the skipped `flush` left -/
+theorem skipped_flush_hidden_when_fault_free (c lc : Nat) (oracle : List WAns) (xs : List Bytes)
+    (hb : ∀ a ∈ oracle, a.benign = true) :
+    (mainWritesSkippingEmpty c lc oracle xs).1 = .ok ∧ (mainWritesSkippingEmpty c lc oracle xs).2.fd = xs.flatten := by
+  have heq : mainWritesSkippingEmpty c lc oracle xs =
+      (IoRes.status (sessionSkippingEmpty lineWriter xs (Stdout.new c lc oracle)).1,
+       finalSink (sessionSkippingEmpty lineWriter xs (Stdout.new c lc oracle)).2) := rfl
+  rw [heq]
+  unfold sessionSkippingEmpty
+  rw [show BufWriter.writer lineWriter = stdoutWriter from rfl]
+  generalize hp : writeAlls stdoutWriter xs (Stdout.new c lc oracle) = p
+  obtain ⟨r, st⟩ := p
+  obtain ⟨hwf, sp⟩ := writeAlls_spec stdout_spec xs _ r st (Stdout.new_wf c lc oracle) hp
+  rw [Stdout.new_snap] at sp
+  have hf : Snap.faultFree ⟨[], [], oracle, false⟩ := ⟨rfl, hb⟩
+  have hr := sp.clean hf
+  subst hr
+  obtain ⟨k, hk, ha, hok, -⟩ := sp.adv
+  have hk' := hok rfl
+  subst hk'
+  have hall : (stdoutView.snap st).all = xs.flatten := by
+    have := ha.all
+    rwa [List.take_length, List.nil_append] at this
+  simp only [andThen]
+  by_cases he : st.buf.isEmpty = true
+  · simp only [he, if_true, IoRes.status, true_and]
+    rw [(finalSink_spec st hwf).2.2.2 (ha.faultFree hf), hall]
+  · simp only [he, Bool.false_eq_true, if_false]
+    generalize hq : BufWriter.flush lineWriter st = q
+    obtain ⟨r', st'⟩ := q
+    obtain ⟨hwf', sp'⟩ := stdout_spec.flush st r' st' hwf hq
+    have hr' := sp'.clean (ha.faultFree hf)
+    subst hr'
+    refine ⟨rfl, ?_⟩
+    show (finalSink st').fd = _
+    rw [(finalSink_spec st' hwf').2.2.2 (sp'.adv.faultFree (ha.faultFree hf))]
+    have := sp'.adv.all
+    simp only [List.append_nil] at this
+    rw [this, hall]
+
+/-- **W3, the witness family** — ONE `write` (not `write_all`) of a slice of at least `capacity` bytes with an
+    interior newline and at least `lineCapacity` bytes after the last newline: the `BufWriter` is bypassed, the
+    `LineWriter` writes the lines through and REFUSES the tail (linewritershim.rs:126-128): the count is short
+    although the OS took everything it was offered.  An engine that ignores the count loses `tl`. -/
+theorem write_is_short (c lc n : Nat) (o : List WAns) (pre tl : Bytes)
+    (hnl : (0x0A : UInt8) ∉ tl) (htl : lc ≤ tl.length) (hbig : c ≤ (pre ++ 0x0A :: tl).length)
+    (hn : pre.length + 1 ≤ n + 1) :
+    stdoutWriter.write (Stdout.new c lc (.accept n :: o)) (pre ++ 0x0A :: tl) =
+      (.ok (pre.length + 1), ⟨[], c, ⟨⟨[], lc, ⟨pre ++ [0x0A], o, false⟩⟩⟩⟩) := by
+  have hsplit1 : (pre ++ 0x0A :: tl).take (pre.length + 1) = pre ++ [0x0A] := by
+    rw [show pre ++ 0x0A :: tl = (pre ++ [0x0A]) ++ tl by simp]
+    rw [List.take_left' (by simp)]
+  have hsplit2 : (pre ++ 0x0A :: tl).drop (pre.length + 1) = tl := by
+    rw [show pre ++ 0x0A :: tl = (pre ++ [0x0A]) ++ tl by simp]
+    rw [List.drop_left' (by simp)]
+  have hle : pre.length + 1 ≤ (pre ++ 0x0A :: tl).length := by simp
+  have hinner : lineWriter.write (LineWriter.withCapacity lc (Sink.new (.accept n :: o))) (pre ++ 0x0A :: tl) =
+      (.ok (pre.length + 1), ⟨⟨[], lc, ⟨pre ++ [0x0A], o, false⟩⟩⟩) := by
+    simp only [lineWriter, LineWriter.writer, LineWriter.write, LineWriter.withCapacity,
+      BufWriter.withCapacity, Shim.write, memrchr_last _ tl hnl pre, sliceTo_some hle, hsplit1, flushBuf_nil,
+      andThen, Sink.writer]
+    rw [Sink.write_whole (Sink.new (.accept n :: o)) n o (pre ++ [0x0A]) rfl rfl (by simpa using hn)]
+    simp [mapState, Shim.tailOf, sliceFrom_some hle, hsplit2, htl, Sink.new]
+  show BufWriter.write lineWriter (Stdout.new c lc (.accept n :: o)) (pre ++ 0x0A :: tl) = _
+  rw [BufWriter.write_bypass _ _ _ rfl hbig]
+  simp only [Stdout.new, BufWriter.withCapacity, hinner, mapState]
+
+/-- `main`'s capacities: a 70001-byte slice, newline at offset 65535, 4465 bytes after it: `write` reports 65536 -/
+example : (stdoutWriter.write (Stdout.new 65536 1024 [.accept 70000])
+      (List.replicate 65535 0x61 ++ 0x0A :: List.replicate 4465 0x62)).1 = .ok (65535 + 1) ∧
+    (List.replicate 65535 0x61 ++ 0x0A :: List.replicate 4465 (0x62 : UInt8)).length = 70001 := by
+  refine ⟨?_, by simp only [List.length_append, List.length_replicate, List.length_cons]⟩
+  rw [write_is_short 65536 1024 70000 [] (List.replicate 65535 0x61) (List.replicate 4465 0x62)
+    (by intro h; have := List.eq_of_mem_replicate h; exact absurd this (by decide))
+    (by simp only [List.length_replicate]; omega)
+    (by simp only [List.length_append, List.length_replicate, List.length_cons]; omega)
+    (by simp only [List.length_replicate]; omega)]
+  simp only [List.length_replicate]
+
+/-- **W3, why the defect hides** — a `write` of FEWER bytes than the capacity of the `BufWriter` never returns a
+    short count, over any writer that keeps the contract and whatever the OS does: it is `Ok(len)` (the slice is
+    buffered, after a `flush_buf` if need be) or the `Err` of that `flush_buf`; and `Ok(len)` when the OS does not
+    fail.  Only slices of at least 64 KiB reach the `LineWriter`. -/
+theorem write_small_never_short {ω : Type} {W : Writer ω} {V : View ω} (hW : Spec W V) (bw : BufWriter ω)
+    (buf : Bytes) (r : IoRes Nat) (bw' : BufWriter ω) (hwf : (BufWriter.view V).wf bw) (hlt : buf.length < bw.cap)
+    (h : BufWriter.write W bw buf = (r, bw')) :
+    (r = .ok buf.length ∨ ∃ e, r = .err e ∧ e ≠ .interrupted) ∧
+    (((BufWriter.view V).snap bw).faultFree → r = .ok buf.length) := by
+  unfold BufWriter.write at h
+  by_cases hc : buf.length < bw.spareCapacity
+  · have hfit : buf.length ≤ bw.spareCapacity := Nat.le_of_lt hc
+    simp only [hc, if_true, BufWriter.writeToBufferUnchecked, hfit, Prod.mk.injEq] at h
+    exact ⟨.inl h.1.symm, fun _ => h.1.symm⟩
+  · simp only [hc, if_false] at h
+    unfold BufWriter.writeCold at h
+    generalize hp : (if buf.length > bw.spareCapacity then BufWriter.flushBuf W bw else (.ok (), bw)) = p at h
+    obtain ⟨r0, bw0⟩ := p
+    have ps := pre_spec hW bw buf r0 bw0 hwf hp
+    cases r0 with
+    | ok u =>
+      simp only [andThen] at h
+      have hnc : ¬ buf.length ≥ bw0.cap := by rw [ps.cap]; omega
+      have hfit := room_fits (ps.room rfl) hnc
+      simp only [hnc, if_false, BufWriter.writeToBufferUnchecked, hfit, if_true, Prod.mk.injEq] at h
+      exact ⟨.inl h.1.symm, fun _ => h.1.symm⟩
+    | err e =>
+      simp only [andThen, id, Prod.mk.injEq] at h
+      refine ⟨.inr ⟨e, h.1.symm, fun he => ps.noIntr (by rw [he])⟩, fun hf => ?_⟩
+      have := ps.clean hf
+      cases this
+    | panic => exact absurd rfl ps.safe.1
+    | hang => exact absurd rfl ps.safe.2
+
+/-- the instance for `main`'s stdout -/
+theorem stdout_write_small (st : Stdout) (buf : Bytes) (hwf : stdoutView.wf st) (hlt : buf.length < st.cap) :
+    (stdoutWriter.write st buf).1 = .ok buf.length ∨ ∃ e, (stdoutWriter.write st buf).1 = .err e ∧ e ≠ .interrupted :=
+  (write_small_never_short lineWriter_spec st buf _ _ hwf hlt rfl).1
+
+/-! ## 8. non-vacuity: ALL oracles of bounded length on small capacities, by evaluation -/
+
+/-- all lists over `alphabet` of length `≤ n` -/
+def allLists {α : Type} (alphabet : List α) : Nat → List (List α)
+  | 0 => [[]]
+  | n + 1 => [] :: (allLists alphabet n).flatMap fun l => alphabet.map fun a => a :: l
+
+def wAlphabet : List WAns := [.accept 0, .accept 1, .accept 7, .zero, .intr, .err false, .err true]
+
+def isPrefix (a b : Bytes) : Bool := a == b.take a.length
+
+/-- the statement of `mainWrites_spec` as a test -/
+def checkMain (c lc : Nat) (oracle : List WAns) (xs : List Bytes) : Bool :=
+  let (st, raw) := mainWrites c lc oracle xs
+  isPrefix raw.fd xs.flatten
+    && (st == .ok || st == .fail)
+    && (st != .ok || raw.fd == xs.flatten)
+    && (!(oracle.all WAns.benign) || (st == .ok && raw.fd == xs.flatten))
+    && (!(oracle.all WAns.hard) || st == .ok || raw.fd.length < xs.flatten.length)
+
+def sampleWrites : List (List Bytes) :=
+  [[[0x61, 0x0A, 0x62, 0x63, 0x0A, 0x64]], [[0x61], [0x0A], [0x62, 0x63, 0x0A, 0x64, 0x65, 0x66, 0x67], []],
+   [[0x61, 0x62, 0x63, 0x64, 0x65], [0x66, 0x0A]], [[], [0x0A, 0x0A]]]
+
+-- 400 oracles (length ≤ 3 over 7 answers) × 3 × 3 capacities × 4 write sequences
+#guard (allLists wAlphabet 3).all fun o => [0, 1, 4].all fun c => [0, 2, 3].all fun lc =>
+  sampleWrites.all fun xs => checkMain c lc o xs
+-- both outcomes occur, and so does "complete although status 1" (a TRANSIENT error: `flush` fails, the drop delivers)
+#guard (allLists wAlphabet 3).any fun o => (mainWrites 4 2 o [[0x61, 0x0A, 0x62]]).1 == .fail
+#guard (allLists wAlphabet 3).any fun o => (mainWrites 4 2 o [[0x61, 0x0A, 0x62]]).1 == .ok && o.any (· == .intr)
+#guard mainWrites 4 2 [.err false] [[0x61, 0x0A, 0x62]] = (.fail, ⟨[0x61, 0x0A, 0x62], [], false⟩)
+#guard mainWrites 4 2 [.zero] [[0x61, 0x0A, 0x62]] = (.fail, ⟨[0x61, 0x0A, 0x62], [], false⟩)
+-- the two witnesses on small capacities (capacity 4, line capacity 3)
+#guard mainWritesSkippingEmpty 4 3 [.accept 9, .err true] [[0x61, 0x62, 0x0A, 0x63, 0x64]] = (.ok, ⟨[0x61, 0x62, 0x0A], [], true⟩)
+#guard mainWrites 4 3 [.accept 9, .err true] [[0x61, 0x62, 0x0A, 0x63, 0x64]] = (.fail, ⟨[0x61, 0x62, 0x0A], [], true⟩)
+#guard (stdoutWriter.write (Stdout.new 4 2 []) [0x61, 0x0A, 0x62, 0x63, 0x64]).1 = .ok 2
+#guard (stdoutWriter.writeAll (Stdout.new 4 2 []) [0x61, 0x0A, 0x62, 0x63, 0x64]).1 = .ok ()
+-- `main`'s capacities, by evaluation
+#guard (stdoutWriter.write (Stdout.new 65536 1024 []) (List.replicate 65535 0x61 ++ 0x0A :: List.replicate 4465 0x62)).1
+  = .ok 65536
+#guard mainWritesSkippingEmpty 65536 1024 [.accept 70000, .err true] [List.replicate 65535 0x61 ++ [0x0A, 0x62]]
+  = (.ok, ⟨List.replicate 65535 0x61 ++ [0x0A], [], true⟩)
+
+/-! ## 9. readers: the `Read` contract, fd 0 -/
+
+/-- what can be observed of a reader -/
+structure RView (ρ : Type) where
+  /-- everything it is still going to deliver, in order (buffered bytes first) -/
+  stream : ρ → Bytes
+  /-- the unused answers of the OS -/
+  budget : ρ → Nat
+  /-- no answer other than data and `EINTR` is left -/
+  noErr : ρ → Prop
+  wf : ρ → Prop
+
+/-- `read_buf(cursor)` with `cursor.capacity() = len` returned `res` (for `Ok`: the bytes appended) -/
+structure ReadSpec {ρ : Type} (RV : RView ρ) (r : ρ) (len : Nat) (res : IoRes Bytes) (r' : ρ) : Prop where
+  wf : RV.wf r'
+  safe : res ≠ .panic ∧ res ≠ .hang
+  budget : RV.budget r' ≤ RV.budget r
+  intr : res = .err .interrupted → RV.budget r' < RV.budget r
+  ok : ∀ bs, res = .ok bs → RV.stream r = bs ++ RV.stream r' ∧ bs.length ≤ len ∧
+    (bs = [] → len = 0 ∨ RV.stream r = [])
+  err : ∀ e, res = .err e → RV.stream r' = RV.stream r
+  noErr : RV.noErr r → RV.noErr r' ∧ ∀ e, res = .err e → e = .interrupted
+
+/-- the contract of a `Read` implementation: an empty read (into a non-empty destination) means END OF INPUT -/
+structure RSpec {ρ : Type} (R : Reader ρ) (RV : RView ρ) : Prop where
+  budget : ∀ r, R.budget r = RV.budget r
+  readBuf : ∀ r len res r', RV.wf r → R.readBuf r len = (res, r') → ReadSpec RV r len res r'
+
+def Src.view : RView Src where
+  stream := fun s => s.data
+  budget := fun s => s.oracle.length
+  noErr := fun s => RAns.err ∉ s.oracle
+  wf := fun _ => True
+
+theorem Src.spec : RSpec Src.reader Src.view where
+  budget := fun _ => rfl
+  readBuf := fun s len res s' _ h => by
+    simp only [Src.reader, Src.read] at h
+    rcases ho : s.oracle with _ | ⟨a, o⟩
+    · simp only [ho, Prod.mk.injEq] at h
+      obtain ⟨rfl, rfl⟩ := h
+      refine ⟨trivial, by simp, by simp [Src.view], by simp, fun bs hbs => ?_, by simp,
+        fun hn => ⟨by simp [Src.view], by simp⟩⟩
+      cases hbs
+      refine ⟨by simp [Src.view], by simp [List.length_take]; omega, fun h0 => ?_⟩
+      simp only [List.take_eq_nil_iff] at h0
+      simpa [Src.view] using h0
+    · cases a with
+      | give n =>
+        simp only [ho, Prod.mk.injEq] at h
+        obtain ⟨rfl, rfl⟩ := h
+        refine ⟨trivial, by simp, by simp [Src.view, ho], by simp, fun bs hbs => ?_, by simp,
+          fun hn => ⟨?_, by simp⟩⟩
+        · cases hbs
+          refine ⟨by simp [Src.view], by simp [List.length_take]; omega, fun h0 => ?_⟩
+          simp only [List.take_eq_nil_iff] at h0
+          rcases h0 with h0 | h0
+          · exact .inl (by omega)
+          · exact .inr (by simpa [Src.view] using h0)
+        · simp only [Src.view, ho, List.mem_cons, not_or] at hn ⊢
+          exact hn.2
+      | intr =>
+        simp only [ho, Prod.mk.injEq] at h
+        obtain ⟨rfl, rfl⟩ := h
+        refine ⟨trivial, by simp, by simp [Src.view, ho], fun _ => by simp [Src.view, ho], by simp,
+          fun _ _ => by simp [Src.view], fun hn => ⟨?_, fun e he => by cases he; rfl⟩⟩
+        simp only [Src.view, ho, List.mem_cons, not_or] at hn ⊢
+        exact hn.2
+      | err =>
+        simp only [ho, Prod.mk.injEq] at h
+        obtain ⟨rfl, rfl⟩ := h
+        refine ⟨trivial, by simp, by simp [Src.view, ho], by simp, by simp,
+          fun _ _ => by simp [Src.view], fun hn => ?_⟩
+        simp [Src.view, ho] at hn
+
+/-! ## 10. `BufReader` -/
+
+def BufReader.view {ρ : Type} (RV : RView ρ) : RView (BufReader ρ) where
+  stream := fun br => br.buf.drop br.pos ++ RV.stream br.inner
+  budget := fun br => RV.budget br.inner
+  noErr := fun br => RV.noErr br.inner
+  wf := fun br => br.pos ≤ br.buf.length ∧ br.buf.length ≤ br.cap ∧ RV.wf br.inner
+
+section BufReaderProofs
+variable {ρ : Type} {R : Reader ρ} {RV : RView ρ}
+
+/-- `fill_buf()` returned `res` -/
+structure FillSpec (RV : RView ρ) (br : BufReader ρ) (res : IoRes Bytes) (br' : BufReader ρ) : Prop where
+  wf : (BufReader.view RV).wf br'
+  cap : br'.cap = br.cap
+  safe : res ≠ .panic ∧ res ≠ .hang
+  budget : RV.budget br'.inner ≤ RV.budget br.inner
+  intr : res = .err .interrupted → RV.budget br'.inner < RV.budget br.inner
+  /-- `fill_buf` consumes nothing -/
+  stream : (BufReader.view RV).stream br' = (BufReader.view RV).stream br
+  /-- the slice handed out is the unconsumed part of the buffer; it is EMPTY ONLY AT END OF INPUT (capacity > 0) -/
+  ok : ∀ s, res = .ok s → s = br'.buf.drop br'.pos ∧ (s = [] → br.cap = 0 ∨ (BufReader.view RV).stream br = [])
+  /-- a buffer that is not used up is handed out again, without a `read` -/
+  keep : br.pos < br.buf.length → br' = br ∧ res = .ok (br.buf.drop br.pos)
+  noErr : RV.noErr br.inner → RV.noErr br'.inner ∧ ∀ e, res = .err e → e = .interrupted
+
+theorem buffer_eq (br : BufReader ρ) (h : br.pos ≤ br.buf.length) : br.buffer = some (br.buf.drop br.pos) := by
+  simp [BufReader.buffer, BufReader.filled, sliceRange, h, List.take_of_length_le]
+
+theorem fillBuf_spec (hR : RSpec R RV) (br : BufReader ρ) (res : IoRes Bytes) (br' : BufReader ρ)
+    (hwf : (BufReader.view RV).wf br) (h : BufReader.fillBuf R br = (res, br')) : FillSpec RV br res br' := by
+  unfold BufReader.fillBuf at h
+  by_cases hc : br.pos ≥ br.filled
+  · have hpos : br.pos = br.buf.length := Nat.le_antisymm hwf.1 hc
+    have hdrop : br.buf.drop br.pos = [] := by rw [hpos]; exact List.drop_length
+    simp only [hc, if_true, BufReader.refill] at h
+    generalize hp : R.readBuf br.inner br.cap = p at h
+    obtain ⟨r1, i1⟩ := p
+    have sp := hR.readBuf _ _ _ _ hwf.2.2 hp
+    cases r1 with
+    | ok bs =>
+      obtain ⟨h1, h2, h3⟩ := sp.ok bs rfl
+      simp only [andThen, buffer_eq (ρ := ρ) ⟨bs, 0, br.cap, i1⟩ (Nat.zero_le _), List.drop_zero, Prod.mk.injEq] at h
+      obtain ⟨rfl, rfl⟩ := h
+      refine ⟨⟨Nat.zero_le _, h2, sp.wf⟩, rfl, by simp, sp.budget, by simp, ?_, fun s hs => ?_,
+        fun hlt => by omega, fun hn => ⟨(sp.noErr hn).1, by simp⟩⟩
+      · simp [BufReader.view, hdrop, h1]
+      · cases hs
+        refine ⟨by simp, fun h0 => ?_⟩
+        rcases h3 h0 with h | h
+        · exact .inl h
+        · exact .inr (by simp [BufReader.view, hdrop, h])
+    | err e =>
+      simp only [andThen, id, Prod.mk.injEq] at h
+      obtain ⟨rfl, rfl⟩ := h
+      refine ⟨⟨Nat.zero_le _, Nat.zero_le _, sp.wf⟩, rfl, by simp, sp.budget, sp.intr, ?_, by simp,
+        fun hlt => by omega, fun hn => ⟨(sp.noErr hn).1, (sp.noErr hn).2⟩⟩
+      simp [BufReader.view, hdrop, sp.err e rfl]
+    | panic => exact absurd rfl sp.safe.1
+    | hang => exact absurd rfl sp.safe.2
+  · simp only [hc, if_false, andThen, buffer_eq br hwf.1, Prod.mk.injEq] at h
+    obtain ⟨rfl, rfl⟩ := h
+    have hlt : br.pos < br.buf.length := by simpa [BufReader.filled] using hc
+    refine ⟨hwf, rfl, by simp, Nat.le_refl _, by simp, rfl, fun s hs => ?_, fun _ => ⟨rfl, rfl⟩,
+      fun hn => ⟨hn, by simp⟩⟩
+    cases hs
+    refine ⟨rfl, fun h0 => ?_⟩
+    have := congrArg List.length h0
+    simp only [List.length_drop, List.length_nil] at this
+    omega
+
+/-- `consume(amt)` drops `amt` bytes (at most the buffered ones) from the stream -/
+theorem consume_stream (br : BufReader ρ) (amt : Nat) (hwf : (BufReader.view RV).wf br) :
+    (BufReader.view RV).wf (br.consume amt) ∧
+    (BufReader.view RV).stream (br.consume amt) =
+      ((BufReader.view RV).stream br).drop (min amt (br.buf.length - br.pos)) := by
+  refine ⟨⟨Nat.min_le_right _ _, hwf.2.1, hwf.2.2⟩, ?_⟩
+  have h1 := hwf.1
+  simp only [BufReader.view, BufReader.consume, BufReader.filled]
+  rw [List.drop_append_of_le_length (by simp only [List.length_drop]; omega), List.drop_drop]
+  congr 2
+  omega
+
+/-- `BufReader::read_buf` (with the bypass) keeps the `Read` contract -/
+theorem BufReader.readBuf_spec (hR : RSpec R RV) (br : BufReader ρ) (len : Nat) (res : IoRes Bytes)
+    (br' : BufReader ρ) (hwf : (BufReader.view RV).wf br) (h : BufReader.readBuf R br len = (res, br')) :
+    ReadSpec (BufReader.view RV) br len res br' := by
+  unfold BufReader.readBuf at h
+  by_cases hc : br.pos = br.filled ∧ len ≥ br.cap
+  · have hdrop : br.buf.drop br.pos = [] := by rw [hc.1]; exact List.drop_length
+    simp only [hc, and_self, if_true, BufReader.discardBuffer] at h
+    generalize hp : R.readBuf br.inner len = p at h
+    obtain ⟨r1, i1⟩ := p
+    simp only [mapState, Prod.mk.injEq] at h
+    obtain ⟨rfl, rfl⟩ := h
+    have sp := hR.readBuf _ _ _ _ hwf.2.2 hp
+    refine ⟨⟨Nat.zero_le _, Nat.zero_le _, sp.wf⟩, sp.safe, sp.budget, sp.intr, fun bs hbs => ?_, fun e he => ?_,
+      sp.noErr⟩
+    · obtain ⟨h1, h2, h3⟩ := sp.ok bs hbs
+      refine ⟨by simp [BufReader.view, hdrop, h1], h2, fun h0 => ?_⟩
+      rcases h3 h0 with h | h
+      · exact .inl h
+      · exact .inr (by simp [BufReader.view, hdrop, h])
+    · simp [BufReader.view, hdrop, sp.err e he]
+  · simp only [hc, if_false] at h
+    generalize hp : BufReader.fillBuf R br = p at h
+    obtain ⟨r1, b1⟩ := p
+    have fs := fillBuf_spec hR br r1 b1 hwf hp
+    cases r1 with
+    | ok rem =>
+      simp only [andThen, Prod.mk.injEq] at h
+      obtain ⟨rfl, rfl⟩ := h
+      obtain ⟨hrem, hemp⟩ := fs.ok rem rfl
+      obtain ⟨hwf', hst⟩ := consume_stream (RV := RV) b1 (rem.take len).length fs.wf
+      have hremlen : rem.length = b1.buf.length - b1.pos := by rw [hrem]; simp
+      refine ⟨hwf', by simp, fs.budget, by simp, fun bs hbs => ?_, by simp, fun hn => ⟨(fs.noErr hn).1, by simp⟩⟩
+      cases hbs
+      have hmin : min (rem.take len).length (b1.buf.length - b1.pos) = (rem.take len).length := by
+        simp only [List.length_take]; omega
+      refine ⟨?_, by simp only [List.length_take]; omega, fun h0 => ?_⟩
+      · rw [hst, hmin, ← fs.stream]
+        have : (BufReader.view RV).stream b1 = rem ++ RV.stream b1.inner := by simp [BufReader.view, hrem]
+        rw [this, List.drop_append_of_le_length (by simp only [List.length_take]; omega), ← List.append_assoc]
+        congr 1
+        simp only [List.length_take]
+        rw [show min len rem.length = min len rem.length from rfl]
+        conv => lhs; rw [← List.take_append_drop len rem]
+        congr 1
+        rw [List.drop_eq_drop_iff]
+        omega
+      · simp only [List.take_eq_nil_iff] at h0
+        rcases h0 with h0 | h0
+        · exact .inl h0
+        · rcases hemp h0 with h | h
+          · -- capacity 0: the test of l.356 holds whenever the buffer is used up
+            exfalso
+            apply hc
+            have := fs.wf.2.1
+            have hb0 : br.buf.length ≤ br.cap := hwf.2.1
+            refine ⟨?_, by omega⟩
+            have := hwf.1
+            simp only [BufReader.filled]
+            omega
+          · exact .inr h
+    | err e =>
+      simp only [andThen, id, Prod.mk.injEq] at h
+      obtain ⟨rfl, rfl⟩ := h
+      exact ⟨fs.wf, by simp, fs.budget, fs.intr, by simp, fun _ _ => fs.stream, fs.noErr⟩
+    | panic => exact absurd rfl fs.safe.1
+    | hang => exact absurd rfl fs.safe.2
+
+/-- **`BufReader<R>` keeps the `Read` contract if `R` does** (any capacity; `StdinLock`) -/
+theorem BufReader.spec (hR : RSpec R RV) : RSpec (BufReader.reader R) (BufReader.view RV) where
+  budget := fun br => hR.budget br.inner
+  readBuf := fun br len res br' hwf h => BufReader.readBuf_spec hR br len res br' hwf h
+
+/-- `fill_buf` retried on `EINTR` (io/mod.rs:2247-2251) returned `res` -/
+structure FillRetrySpec (RV : RView ρ) (br : BufReader ρ) (res : IoRes Bytes) (br' : BufReader ρ) : Prop where
+  wf : (BufReader.view RV).wf br'
+  cap : br'.cap = br.cap
+  safe : res ≠ .panic ∧ res ≠ .hang
+  noIntr : res ≠ .err .interrupted
+  budget : RV.budget br'.inner ≤ RV.budget br.inner
+  stream : (BufReader.view RV).stream br' = (BufReader.view RV).stream br
+  ok : ∀ s, res = .ok s → s = br'.buf.drop br'.pos ∧ (s = [] → br.cap = 0 ∨ (BufReader.view RV).stream br = [])
+  keep : br.pos < br.buf.length → br' = br ∧ res = .ok (br.buf.drop br.pos)
+  noErr : RV.noErr br.inner → RV.noErr br'.inner ∧ ∃ s, res = .ok s
+
+theorem fillBufRetryLoop_spec (hR : RSpec R RV) : ∀ (fuel : Nat) (br : BufReader ρ) (res : IoRes Bytes)
+    (br' : BufReader ρ), (BufReader.view RV).wf br → RV.budget br.inner < fuel →
+    BufReader.fillBufRetryLoop R fuel br = (res, br') → FillRetrySpec RV br res br' := by
+  intro fuel
+  induction fuel with
+  | zero => intro br res br' _ hf; omega
+  | succ fuel ih =>
+    intro br res br' hwf hfuel h
+    unfold BufReader.fillBufRetryLoop at h
+    generalize hp : BufReader.fillBuf R br = p at h
+    obtain ⟨r1, b1⟩ := p
+    have fs := fillBuf_spec hR br r1 b1 hwf hp
+    cases r1 with
+    | ok s =>
+      simp only [Prod.mk.injEq] at h
+      obtain ⟨rfl, rfl⟩ := h
+      exact ⟨fs.wf, fs.cap, by simp, by simp, fs.budget, fs.stream, fs.ok, fs.keep, fun hn => ⟨(fs.noErr hn).1, _, rfl⟩⟩
+    | err e =>
+      simp only at h
+      by_cases he : e = .interrupted
+      · subst he
+        simp only [if_true] at h
+        have sp := ih b1 res br' fs.wf (by have := fs.intr rfl; omega) h
+        refine ⟨sp.wf, sp.cap.trans fs.cap, sp.safe, sp.noIntr, Nat.le_trans sp.budget fs.budget,
+          sp.stream.trans fs.stream, fun s hs => ?_, fun hlt => ?_, fun hn => sp.noErr (fs.noErr hn).1⟩
+        · obtain ⟨a, b⟩ := sp.ok s hs
+          refine ⟨a, fun h0 => ?_⟩
+          rcases b h0 with h | h
+          · exact .inl (by rw [← fs.cap]; exact h)
+          · exact .inr (by rw [← fs.stream]; exact h)
+        · have := (fs.keep hlt).2
+          cases this
+      · simp only [he, if_false, Prod.mk.injEq] at h
+        obtain ⟨rfl, rfl⟩ := h
+        refine ⟨fs.wf, fs.cap, by simp, by simpa using he, fs.budget, fs.stream, by simp, fun hlt => ?_, fun hn => ?_⟩
+        · have := (fs.keep hlt).2
+          cases this
+        · exact absurd ((fs.noErr hn).2 e rfl) he
+    | panic => exact absurd rfl fs.safe.1
+    | hang => exact absurd rfl fs.safe.2
+
+theorem fillBufRetry_spec (hR : RSpec R RV) (br : BufReader ρ) (res : IoRes Bytes) (br' : BufReader ρ)
+    (hwf : (BufReader.view RV).wf br) (h : BufReader.fillBufRetry R br = (res, br')) :
+    FillRetrySpec RV br res br' :=
+  fillBufRetryLoop_spec hR _ br res br' hwf (by rw [hR.budget]; omega) h
+
+/-- the chunks a consumer gets from `fill_buf` / `consume(len)` -/
+theorem drainLoop_spec (hR : RSpec R RV) : ∀ (fuel : Nat) (br : BufReader ρ), (BufReader.view RV).wf br →
+    0 < br.cap → ((BufReader.view RV).stream br).length < fuel →
+    (∀ s ∈ (drainLoop R fuel br).1, s ≠ []) ∧
+    (drainLoop R fuel br).1.flatten <+: (BufReader.view RV).stream br ∧
+    ((drainLoop R fuel br).2 = .ok ∨ (drainLoop R fuel br).2 = .fail) ∧
+    ((drainLoop R fuel br).2 = .ok → (drainLoop R fuel br).1.flatten = (BufReader.view RV).stream br) ∧
+    (RV.noErr br.inner → (drainLoop R fuel br).2 = .ok) := by
+  intro fuel
+  induction fuel with
+  | zero => intro br _ _ hf; omega
+  | succ fuel ih =>
+    intro br hwf hcap hfuel
+    unfold drainLoop
+    generalize hp : BufReader.fillBufRetry R br = p
+    obtain ⟨r1, b1⟩ := p
+    have fs := fillBufRetry_spec hR br r1 b1 hwf hp
+    cases r1 with
+    | ok s =>
+      obtain ⟨hs, hemp⟩ := fs.ok s rfl
+      by_cases he : s = []
+      · subst he
+        have hst : (BufReader.view RV).stream br = [] := by
+          rcases hemp rfl with h | h
+          · omega
+          · exact h
+        simp [hst]
+      · have hse : s.isEmpty = false := by cases s <;> simp_all
+        simp only [hse, Bool.false_eq_true, if_false]
+        obtain ⟨hwf', hst⟩ := consume_stream (RV := RV) b1 s.length fs.wf
+        have hslen : s.length = b1.buf.length - b1.pos := by rw [hs]; simp
+        have hstream : (BufReader.view RV).stream br = s ++ (BufReader.view RV).stream (b1.consume s.length) := by
+          rw [hst, ← hslen, Nat.min_self, ← fs.stream]
+          have : (BufReader.view RV).stream b1 = s ++ RV.stream b1.inner := by simp [BufReader.view, hs]
+          rw [this, List.drop_left]
+        have hpos : 0 < s.length := List.length_pos_iff.mpr he
+        obtain ⟨i1, i2, i3, i4, i5⟩ := ih (b1.consume s.length) hwf' (by
+            show 0 < b1.cap
+            rw [fs.cap]; exact hcap) (by
+            have := congrArg List.length hstream
+            simp only [List.length_append] at this
+            omega)
+        generalize drainLoop R fuel (b1.consume s.length) = d at i1 i2 i3 i4 i5
+        obtain ⟨rest, st⟩ := d
+        simp only at i1 i2 i3 i4 i5 ⊢
+        refine ⟨fun x hx => ?_, ?_, i3, fun h => ?_, fun hn => i5 (fs.noErr hn).1⟩
+        · rcases List.mem_cons.mp hx with h | h
+          · exact h ▸ he
+          · exact i1 x h
+        · rw [hstream, List.flatten_cons]
+          exact (List.prefix_append_right_inj s).mpr i2
+        · rw [hstream, List.flatten_cons, i4 h]
+    | err e =>
+      refine ⟨by simp, by simp, by simp [IoRes.status], by simp [IoRes.status], fun hn => ?_⟩
+      obtain ⟨s, hs⟩ := (fs.noErr hn).2
+      cases hs
+    | panic => exact absurd rfl fs.safe.1
+    | hang => exact absurd rfl fs.safe.2
+
+end BufReaderProofs
+
+/-! ## 11. the stdin of `main`: R1 -/
+
+def stdinView : RView Stdin := BufReader.view (BufReader.view Src.view)
+
+theorem stdinLock_spec : RSpec stdinLock (BufReader.view Src.view) := BufReader.spec Src.spec
+
+theorem Stdin.new_wf (c lc : Nat) (data : Bytes) (oracle : List RAns) : stdinView.wf (Stdin.new c lc data oracle) := by
+  simp [stdinView, BufReader.view, Src.view, Stdin.new, BufReader.withCapacity]
+
+theorem Stdin.new_stream (c lc : Nat) (data : Bytes) (oracle : List RAns) :
+    stdinView.stream (Stdin.new c lc data oracle) = data := by
+  simp [stdinView, BufReader.view, Src.view, Stdin.new, BufReader.withCapacity]
+
+/-- **R1** — `BufReader::fill_buf` on `main`'s stdin (any positive capacity, any capacity of the `StdinLock`
+    below, EVERY pattern of short reads, `EINTR` and errors, from any reachable state): it never panics or
+    hangs, consumes nothing, and an EMPTY slice means END OF INPUT — nothing buffered at either level and
+    nothing left in the file -/
+theorem R1_fill_buf_empty_only_at_eof (br : Stdin) (res : IoRes Bytes) (br' : Stdin) (hwf : stdinView.wf br)
+    (hcap : 0 < br.cap) (h : BufReader.fillBuf stdinLock br = (res, br')) :
+    (res ≠ .panic ∧ res ≠ .hang) ∧ stdinView.stream br' = stdinView.stream br ∧
+    (res = .ok [] → stdinView.stream br = [] ∧ br.inner.inner.data = []) := by
+  have fs := fillBuf_spec stdinLock_spec br res br' hwf h
+  refine ⟨fs.safe, fs.stream, fun hr => ?_⟩
+  have hst : stdinView.stream br = [] := by
+    rcases (fs.ok [] hr).2 rfl with h | h
+    · omega
+    · exact h
+  refine ⟨hst, ?_⟩
+  simp only [stdinView, BufReader.view, Src.view, List.append_eq_nil_iff] at hst
+  exact hst.2.2
+
+/-- **R1, capacity 0** (the seeded change `BufReader::with_capacity(0, …)`): every successful `fill_buf` is
+    EMPTY, whatever the file holds — every engine sees end of input at once -/
+theorem capacity_zero_reads_nothing {ρ : Type} {R : Reader ρ} {RV : RView ρ} (hR : RSpec R RV) (br : BufReader ρ)
+    (res : IoRes Bytes) (br' : BufReader ρ) (hwf : (BufReader.view RV).wf br) (hcap : br.cap = 0)
+    (h : BufReader.fillBuf R br = (res, br')) : ∀ s, res = .ok s → s = [] := by
+  intro s hs
+  have fs := fillBuf_spec hR br res br' hwf h
+  rw [(fs.ok s hs).1]
+  have := fs.wf.2.1
+  rw [fs.cap, hcap] at this
+  simp [List.eq_nil_of_length_eq_zero (Nat.le_zero.mp this)]
+
+/-- **R1, the chunks** — what the successive `fill_buf()` (retried on `EINTR`) / `consume(len)` hand out on
+    `main`'s stdin, for every pattern of short reads and `EINTR`: non-empty chunks whose concatenation is the
+    file.  This is the `segs` of `Tuc.Props.StreamLoop` / `ReadLoops` / `WholeLit` (`∀ s ∈ segs, s ≠ []`,
+    `segs.flatten = input`), now derived from the `read(2)` contract. -/
+theorem R1_chunks (c lc : Nat) (data : Bytes) (oracle : List RAns) (hc : 0 < c) (ho : RAns.err ∉ oracle) :
+    (drainLoop stdinLock (data.length + 1) (Stdin.new c lc data oracle)).2 = .ok ∧
+    (∀ s ∈ (drainLoop stdinLock (data.length + 1) (Stdin.new c lc data oracle)).1, s ≠ []) ∧
+    (drainLoop stdinLock (data.length + 1) (Stdin.new c lc data oracle)).1.flatten = data := by
+  have hlen : (stdinView.stream (Stdin.new c lc data oracle)).length < data.length + 1 := by
+    rw [Stdin.new_stream]; omega
+  obtain ⟨h1, -, -, h4, h5⟩ := drainLoop_spec stdinLock_spec (data.length + 1) (Stdin.new c lc data oracle)
+    (Stdin.new_wf c lc data oracle) hc hlen
+  have hok := h5 (by simpa [BufReader.view, Src.view, Stdin.new, BufReader.withCapacity] using ho)
+  refine ⟨hok, h1, ?_⟩
+  rw [h4 hok]
+  exact Stdin.new_stream c lc data oracle
+
+/-- with read errors: still a prefix, and status 1 -/
+theorem R1_chunks_any_oracle (c lc : Nat) (data : Bytes) (oracle : List RAns) (hc : 0 < c) :
+    (drainLoop stdinLock (data.length + 1) (Stdin.new c lc data oracle)).1.flatten <+: data ∧
+    ((drainLoop stdinLock (data.length + 1) (Stdin.new c lc data oracle)).2 = .ok ∨
+      (drainLoop stdinLock (data.length + 1) (Stdin.new c lc data oracle)).2 = .fail) := by
+  have hlen : (stdinView.stream (Stdin.new c lc data oracle)).length < data.length + 1 := by
+    rw [Stdin.new_stream]; omega
+  obtain ⟨-, h2, h3, -, -⟩ := drainLoop_spec stdinLock_spec (data.length + 1) (Stdin.new c lc data oracle)
+    (Stdin.new_wf c lc data oracle) hc hlen
+  rw [show (BufReader.view (BufReader.view Src.view)) = stdinView from rfl, Stdin.new_stream] at h2
+  exact ⟨h2, h3⟩
+
+/-! ## 12. the literal `BufReader` SIMULATES the chunk-list reader of `Tuc.Model.StreamLoop` -/
+
+section Simulation
+variable {ρ : Type} {R : Reader ρ} {RV : RView ρ}
+
+/-- more fuel than bytes: the amount does not matter -/
+theorem drainLoop_fuel (hR : RSpec R RV) : ∀ (f f' : Nat) (br : BufReader ρ), (BufReader.view RV).wf br →
+    0 < br.cap → ((BufReader.view RV).stream br).length < f → ((BufReader.view RV).stream br).length < f' →
+    drainLoop R f br = drainLoop R f' br := by
+  intro f
+  induction f with
+  | zero => intro f' br _ _ hf; omega
+  | succ f ih =>
+    intro f' br hwf hcap hf hf'
+    cases f' with
+    | zero => omega
+    | succ f' =>
+      unfold drainLoop
+      generalize hp : BufReader.fillBufRetry R br = p
+      obtain ⟨r1, b1⟩ := p
+      have fs := fillBufRetry_spec hR br r1 b1 hwf hp
+      cases r1 with
+      | ok s =>
+        obtain ⟨hs, -⟩ := fs.ok s rfl
+        by_cases he : s = []
+        · subst he; simp
+        · have hse : s.isEmpty = false := by cases s <;> simp_all
+          simp only [hse, Bool.false_eq_true, if_false]
+          obtain ⟨hwf', hst⟩ := consume_stream (RV := RV) b1 s.length fs.wf
+          have hslen : s.length = b1.buf.length - b1.pos := by rw [hs]; simp
+          have hlen : ((BufReader.view RV).stream br).length =
+              s.length + ((BufReader.view RV).stream (b1.consume s.length)).length := by
+            rw [hst, ← hslen, Nat.min_self, ← fs.stream]
+            have : (BufReader.view RV).stream b1 = s ++ RV.stream b1.inner := by simp [BufReader.view, hs]
+            rw [this, List.drop_left, List.length_append]
+          have hpos : 0 < s.length := List.length_pos_iff.mpr he
+          rw [ih f' (b1.consume s.length) hwf' (by show 0 < b1.cap; rw [fs.cap]; exact hcap) (by omega) (by omega)]
+      | err e => rfl
+      | panic => rfl
+      | hang => rfl
+
+/-- the chunk list a `BufReader` stands for: what it holds now, then what the reads are going to bring -/
+def segsOf (R : Reader ρ) (RV : RView ρ) (br : BufReader ρ) : List Bytes :=
+  (drainLoop R (((BufReader.view RV).stream br).length + 1) br).1
+
+/-- the state after a `fill_buf`: a non-empty buffer, or end of input -/
+def Filled (RV : RView ρ) (br : BufReader ρ) : Prop :=
+  br.pos < br.buf.length ∨ (BufReader.view RV).stream br = []
+
+theorem segsOf_nonempty (hR : RSpec R RV) (br : BufReader ρ) (hwf : (BufReader.view RV).wf br) (hcap : 0 < br.cap) :
+    ∀ s ∈ segsOf R RV br, s ≠ [] :=
+  (drainLoop_spec hR _ br hwf hcap (Nat.lt_succ_self _)).1
+
+theorem segsOf_flatten (hR : RSpec R RV) (br : BufReader ρ) (hwf : (BufReader.view RV).wf br) (hcap : 0 < br.cap)
+    (hn : RV.noErr br.inner) : (segsOf R RV br).flatten = (BufReader.view RV).stream br := by
+  obtain ⟨-, -, -, h4, h5⟩ := drainLoop_spec hR _ br hwf hcap (Nat.lt_succ_self _)
+  exact h4 (h5 hn)
+
+theorem segsOf_eof (hR : RSpec R RV) (br : BufReader ρ) (hwf : (BufReader.view RV).wf br) (hcap : 0 < br.cap)
+    (h : (BufReader.view RV).stream br = []) : segsOf R RV br = [] := by
+  obtain ⟨h1, h2, -, -, -⟩ := drainLoop_spec hR _ br hwf hcap (Nat.lt_succ_self _)
+  unfold segsOf
+  generalize (drainLoop R (((BufReader.view RV).stream br).length + 1) br).1 = l at h1 h2
+  rw [h] at h2
+  have hf := List.prefix_nil.mp h2
+  cases l with
+  | nil => rfl
+  | cons x t =>
+    rw [List.flatten_cons, List.append_eq_nil_iff] at hf
+    exact absurd hf.1 (h1 x (by simp))
+
+/-- with a buffer that is not used up: its rest, then the chunks after it -/
+theorem segsOf_cons (hR : RSpec R RV) (br : BufReader ρ) (hwf : (BufReader.view RV).wf br) (hcap : 0 < br.cap)
+    (hlt : br.pos < br.buf.length) :
+    segsOf R RV br = br.buf.drop br.pos :: segsOf R RV (br.consume (br.buf.length - br.pos)) := by
+  have fs := fillBufRetry_spec hR br _ _ hwf rfl
+  obtain ⟨hb, hr⟩ := fs.keep hlt
+  have hne : (br.buf.drop br.pos).isEmpty = false := by
+    cases hd : br.buf.drop br.pos with
+    | nil =>
+      have := congrArg List.length hd
+      simp only [List.length_drop, List.length_nil] at this
+      omega
+    | cons => rfl
+  obtain ⟨hwf', hst⟩ := consume_stream (RV := RV) br (br.buf.length - br.pos) hwf
+  unfold segsOf
+  conv => lhs; unfold drainLoop
+  have hpair : BufReader.fillBufRetry R br = (.ok (br.buf.drop br.pos), br) := Prod.ext hr hb
+  simp only [hpair, hne, Bool.false_eq_true, if_false, List.length_drop]
+  congr 1
+  rw [drainLoop_fuel hR ((BufReader.view RV).stream br).length
+    (((BufReader.view RV).stream (br.consume (br.buf.length - br.pos))).length + 1)
+    _ hwf' hcap (by
+      rw [hst, Nat.min_self]
+      simp only [BufReader.view, List.length_drop, List.length_append]
+      omega) (Nat.lt_succ_self _)]
+
+theorem consume_consume (br : BufReader ρ) (n m : Nat) (h : br.buf.length ≤ br.pos + n + m) :
+    (br.consume n).consume m = br.consume (n + m) := by
+  simp only [BufReader.consume, BufReader.filled]
+  congr 1
+  omega
+
+/-- **`fill_buf` commutes with the abstraction**: the literal `fill_buf()` (retried on `EINTR`, as
+    `read_until` does) returns the head of the chunk list and does not change it -/
+theorem sim_fillBuf (hR : RSpec R RV) (br : BufReader ρ) (res : IoRes Bytes) (br' : BufReader ρ)
+    (hwf : (BufReader.view RV).wf br) (hcap : 0 < br.cap) (hn : RV.noErr br.inner)
+    (h : BufReader.fillBufRetry R br = (res, br')) :
+    res = .ok (StreamLoop.fillBuf (segsOf R RV br)) ∧ segsOf R RV br' = segsOf R RV br ∧
+    (BufReader.view RV).wf br' ∧ 0 < br'.cap ∧ RV.noErr br'.inner ∧ Filled RV br' := by
+  have fs := fillBufRetry_spec hR br res br' hwf h
+  obtain ⟨hn', s, rfl⟩ := fs.noErr hn
+  obtain ⟨hs, hemp⟩ := fs.ok s rfl
+  have hcap' : 0 < br'.cap := by rw [fs.cap]; exact hcap
+  by_cases he : s = []
+  · subst he
+    have hst : (BufReader.view RV).stream br = [] := by
+      rcases hemp rfl with h | h
+      · omega
+      · exact h
+    rw [segsOf_eof hR br hwf hcap hst, segsOf_eof hR br' fs.wf hcap' (fs.stream.trans hst)]
+    exact ⟨rfl, rfl, fs.wf, hcap', hn', .inr (fs.stream.trans hst)⟩
+  · have hlt : br'.pos < br'.buf.length := by
+      have := List.length_pos_iff.mpr he
+      rw [hs, List.length_drop] at this
+      omega
+    have hsegs : segsOf R RV br = s :: segsOf R RV (br'.consume s.length) := by
+      have hse : s.isEmpty = false := by cases s <;> simp_all
+      obtain ⟨hwf'', hst⟩ := consume_stream (RV := RV) br' s.length fs.wf
+      have hslen : s.length = br'.buf.length - br'.pos := by rw [hs]; simp
+      unfold segsOf
+      conv => lhs; unfold drainLoop
+      simp only [h, hse, Bool.false_eq_true, if_false]
+      congr 1
+      have hpos : 0 < s.length := List.length_pos_iff.mpr he
+      have hle : s.length ≤ ((BufReader.view RV).stream br').length := by
+        simp only [BufReader.view, List.length_append, List.length_drop]
+        omega
+      rw [drainLoop_fuel hR ((BufReader.view RV).stream br).length
+        (((BufReader.view RV).stream (br'.consume s.length)).length + 1)
+        _ hwf'' hcap' (by
+          rw [hst, ← fs.stream, ← hslen, Nat.min_self]
+          simp only [List.length_drop]
+          omega) (Nat.lt_succ_self _)]
+    have hsegs' := segsOf_cons hR br' fs.wf hcap' hlt
+    have hslen : s.length = br'.buf.length - br'.pos := by rw [hs]; simp
+    rw [← hslen, ← hs] at hsegs'
+    refine ⟨by rw [hsegs]; rfl, hsegs'.trans hsegs.symm, fs.wf, hcap', hn', .inl hlt⟩
+
+/-- **`consume` commutes with the abstraction** (after a `fill_buf`, as the `BufRead` contract demands) -/
+theorem sim_consume (hR : RSpec R RV) (br : BufReader ρ) (amt : Nat) (hwf : (BufReader.view RV).wf br)
+    (hcap : 0 < br.cap) (hf : Filled RV br) :
+    segsOf R RV (br.consume amt) = StreamLoop.consume amt (segsOf R RV br) := by
+  obtain ⟨hwf', hst⟩ := consume_stream (RV := RV) br amt hwf
+  rcases hf with hlt | heof
+  · rw [segsOf_cons hR br hwf hcap hlt]
+    simp only [StreamLoop.consume, List.length_drop]
+    by_cases hc : amt < br.buf.length - br.pos
+    · have hlt' : (br.consume amt).pos < (br.consume amt).buf.length := by
+        simp only [BufReader.consume, BufReader.filled]
+        omega
+      rw [if_pos hc, segsOf_cons hR _ hwf' hcap hlt']
+      congr 1
+      · simp only [BufReader.consume, BufReader.filled, List.drop_drop]
+        congr 1
+        omega
+      · congr 1
+        have h1 : (br.consume amt).buf.length = br.buf.length := rfl
+        have h2 : (br.consume amt).pos = br.pos + amt := by
+          simp only [BufReader.consume, BufReader.filled]; omega
+        rw [h1, h2, consume_consume br amt _ (by omega)]
+        simp only [BufReader.consume, BufReader.filled]
+        congr 1
+        omega
+    · rw [if_neg hc]
+      congr 1
+      simp only [BufReader.consume, BufReader.filled]
+      congr 1
+      omega
+  · rw [segsOf_eof hR br hwf hcap heof, segsOf_eof hR _ hwf' hcap (by rw [hst, heof]; simp)]
+    rfl
+
+end Simulation
+
+/-- **R1 for `main`'s stdin, as a simulation** — from the first `fill_buf` on, the literal
+    `BufReader<StdinLock>` and the chunk list `segsOf … (Stdin.new c lc data oracle)` answer every `fill_buf` /
+    `consume` alike (`sim_fillBuf`, `sim_consume`), and that list consists of non-empty chunks whose
+    concatenation is the file: the hypothesis of `cutBytesStreamLoop_eq`, `readAndCutStrLoop_eq`, … -/
+theorem R1_initial_segs (c lc : Nat) (data : Bytes) (oracle : List RAns) (hc : 0 < c) (ho : RAns.err ∉ oracle) :
+    (∀ s ∈ segsOf stdinLock (BufReader.view Src.view) (Stdin.new c lc data oracle), s ≠ []) ∧
+    (segsOf stdinLock (BufReader.view Src.view) (Stdin.new c lc data oracle)).flatten = data :=
+  ⟨segsOf_nonempty stdinLock_spec _ (Stdin.new_wf c lc data oracle) hc,
+   (segsOf_flatten stdinLock_spec _ (Stdin.new_wf c lc data oracle) hc
+      (by simpa [BufReader.view, Src.view, Stdin.new, BufReader.withCapacity] using ho)).trans
+    (Stdin.new_stream c lc data oracle)⟩
+
+/-! ## 13. non-vacuity for the readers: ALL read oracles of bounded length on small capacities -/
+
+def rAlphabet : List RAns := [.give 0, .give 1, .give 5, .intr, .err]
+
+/-- the statement of `drainLoop_spec` / `R1_chunks` as a test -/
+def checkRead (c lc : Nat) (oracle : List RAns) (data : Bytes) : Bool :=
+  let (chunks, st) := drainLoop stdinLock (data.length + 1) (Stdin.new c lc data oracle)
+  chunks.all (fun s => s != [])
+    && isPrefix chunks.flatten data
+    && (st == .ok || st == .fail)
+    && (st != .ok || chunks.flatten == data)
+    && (oracle.contains .err || (st == .ok && chunks.flatten == data))
+
+-- 781 oracles (length ≤ 4 over 5 answers) × 3 × 4 capacities
+#guard (allLists rAlphabet 4).all fun o => [1, 2, 5].all fun c => [0, 1, 3, 8].all fun lc =>
+  checkRead c lc o [1, 2, 3, 4, 5, 6, 7]
+#guard (allLists rAlphabet 4).any fun o => (drainLoop stdinLock 8 (Stdin.new 2 3 [1, 2, 3, 4, 5, 6, 7] o)).2 == .fail
+-- the chunks do depend on the oracle and on both capacities (the bypass of bufreader.rs:356)
+#guard drainLoop stdinLock 10 (Stdin.new 4 2 [1, 2, 3, 4, 5, 6, 7, 8, 9] [.give 0, .intr, .give 5])
+  = ([[1], [2, 3, 4, 5], [6, 7, 8, 9]], .ok)
+#guard drainLoop stdinLock 10 (Stdin.new 2 4 [1, 2, 3, 4, 5, 6, 7, 8, 9] [.give 0, .intr, .give 5])
+  = ([[1], [2, 3], [4, 5], [6, 7], [8, 9]], .ok)
+-- capacity 0 (seeded change): end of input at once, status 0, nothing read — with `main`'s other capacity
+#guard drainLoop stdinLock 10 (Stdin.new 0 8192 [1, 2, 3] []) = ([], .ok)
+#guard (BufReader.fillBuf stdinLock (Stdin.new 0 8192 [1, 2, 3] [])).1 = .ok []
+#guard (BufReader.fillBuf stdinLock (Stdin.new 65536 8192 [1, 2, 3] [])).1 = .ok [1, 2, 3]
+-- `fill_buf` itself does NOT retry `EINTR` (buffer.rs:157 `result?`): `stream.rs:295` and bstr's
+-- `for_byte_record_with_terminator` (`fill_buf()?`) turn it into status 1; nothing is lost for a caller that retries
+#guard (BufReader.fillBuf stdinLock (Stdin.new 4 2 [1, 2, 3] [.intr])).1 = .err .interrupted
+#guard (BufReader.fillBufRetry stdinLock (Stdin.new 4 2 [1, 2, 3] [.intr])).1 = .ok [1, 2, 3]
+-- `sim_consume` needs `Filled`: before the first `fill_buf` the chunk list is ahead of the buffer
+#guard segsOf stdinLock (BufReader.view Src.view) ((Stdin.new 4 2 [1, 2, 3] []).consume 1) = [[1, 2, 3]]
+#guard StreamLoop.consume 1 (segsOf stdinLock (BufReader.view Src.view) (Stdin.new 4 2 [1, 2, 3] [])) = [[2, 3]]
+
+/-- a consumer that takes ONE byte per `fill_buf`, on the literal reader … -/
+def bytewiseLit : Nat → Stdin → Bytes
+  | 0, _ => []
+  | fuel + 1, br =>
+    match BufReader.fillBufRetry stdinLock br with
+    | (.ok (b :: _), br) => b :: bytewiseLit fuel (br.consume 1)
+    | _ => []
+
+/-- … and on the chunk list -/
+def bytewiseAbs : Nat → List Bytes → Bytes
+  | 0, _ => []
+  | fuel + 1, segs =>
+    match StreamLoop.fillBuf segs with
+    | b :: _ => b :: bytewiseAbs fuel (StreamLoop.consume 1 segs)
+    | [] => []
+
+#guard (allLists [RAns.give 0, .give 1, .give 5, .intr] 4).all fun o => [1, 2, 5].all fun c => [0, 3, 8].all fun lc =>
+  let br := Stdin.new c lc [1, 2, 3, 4, 5, 6, 7] o
+  bytewiseLit 9 br == [1, 2, 3, 4, 5, 6, 7]
+    && bytewiseAbs 9 (segsOf stdinLock (BufReader.view Src.view) br) == [1, 2, 3, 4, 5, 6, 7]
+
+/-! ## 14. instances of the theorems (non-vacuity) -/
+
+example : mainWrites 65536 1024 [.accept 0, .intr, .intr, .accept 2, .intr] [[0x61, 0x0A], [0x62], [0x63, 0x0A]] =
+    (.ok, ⟨[0x61, 0x0A, 0x62, 0x63, 0x0A], (mainWrites 65536 1024 [.accept 0, .intr, .intr, .accept 2, .intr]
+      [[0x61, 0x0A], [0x62], [0x63, 0x0A]]).2.oracle, false⟩) :=
+  W1_fault_free 65536 1024 _ _ (by decide)
+
+example : (mainWrites 65536 1024 [.accept 0, .err true] [[0x61, 0x0A], [0x62], [0x63, 0x0A]]).2.fd <+:
+    [0x61, 0x0A, 0x62, 0x63, 0x0A] :=
+  (W2_prefix_and_no_silent_loss 65536 1024 _ _).1
+
+#guard mainWrites 65536 1024 [.accept 0, .err true] [[0x61, 0x0A], [0x62], [0x63, 0x0A]] = (.fail, ⟨[0x61], [], true⟩)
+#guard mainWritesThenErr 65536 1024 [.accept 0, .intr] [[0x61, 0x0A], [0x62]] = (.fail, ⟨[0x61, 0x0A, 0x62], [], false⟩)
+
+example : ∃ limit, (mainWrites 65536 1024 [.accept 0, .err true] [[0x61, 0x0A], [0x62]]).2.fd =
+    (deliver ⟨[0x61, 0x0A, 0x62], .ok⟩ limit).out ∧
+    (mainWrites 65536 1024 [.accept 0, .err true] [[0x61, 0x0A], [0x62]]).1 =
+      (deliver ⟨[0x61, 0x0A, 0x62], .ok⟩ limit).status := by
+  obtain ⟨limit, h1, -, -, h4⟩ := W2_deliver 65536 1024 [.accept 0, .err true] [[0x61, 0x0A], [0x62]]
+  exact ⟨limit, h1, h4 (by decide)⟩
+
+example : (drainLoop stdinLock 4 (Stdin.new 65536 8192 [1, 2, 3] [.give 0, .intr, .give 0])).1.flatten = [1, 2, 3] :=
+  (R1_chunks 65536 8192 [1, 2, 3] [.give 0, .intr, .give 0] (by decide) (by decide)).2.2
 
 end StdioLit
 end Tuc
